@@ -9,7 +9,7 @@
 From Coq Require Import List Arith Bool PeanoNat ZArith Lia Sorted.
 Import ListNotations.
 From Draco Require Import Model.CornerTable Model.EbEncoder Proofs.CornerTable_proofs.
-From Draco Require Model.Edgebreaker.
+From Draco Require Model.Edgebreaker Model.EbTraversal Model.Ans.
 
 Lemma nodup_b_sound l : nodup_b l = true -> NoDup l.
 Proof.
@@ -378,16 +378,178 @@ Proof.
   - cbn [f2s with_f2s last_id]. constructor; auto. cbn [snd]. rewrite A1. destruct (syms s); [congruence|]. cbn [length]. lia.
 Qed.
 
+(** ---- closure of the traversal: the ghost invariant.
+    [openc vfl x y]: x is a corner of a visited face whose opposite face (corner y) is not visited.
+    During a run (one EncodeConnectivityFromCorner, plus the interior start face if any) every open edge is
+      - scheduled: its outer corner is the current corner or lies on the corner stack, or
+      - deferred: it is the LEFT edge of a face processed with symbol C in this run ([cl]), or the left / gate edge of the
+        interior start face ([sf]).
+    [new] = the corners processed in this run, newest first.  FR: the tip vertex of a C face was fresh: every visited face
+    containing it was processed at or after that face. *)
+Definition gatev (vfl : list bool) (y : nat) : Prop := forall x0, opp_at opp y = Some x0 -> nth (x0 / 3) vfl false = true.
+Definition openc (vfl : list bool) (x y : nat) : Prop :=
+  x < 3 * nf /\ nth (x / 3) vfl false = true /\ opp_at opp x = Some y /\ nth (y / 3) vfl false = false.
+Definition deferred (sf : option nat) (cl : list nat) (x : nat) : Prop :=
+  (exists c', In c' cl /\ x = prev_c c') \/ (exists ci, sf = Some ci /\ (x = ci \/ x = prev_c ci)).
+
+Record RunG (D : nat -> nat -> Prop) (sf : option nat) (cl new : list nat) (vfl : list bool) (stk : list (option nat)) : Prop := {
+  r_cl : incl cl new;
+  r_fr : forall l1 c' l2, new = l1 ++ c' :: l2 -> In c' cl -> forall x, x < 3 * nf -> vtx c2v x = vtx c2v c' ->
+           nth (x / 3) vfl false = true -> In (x / 3) (map (fun c => c / 3) (l1 ++ [c']));
+  r_sfn : forall ci, sf = Some ci -> ~ In (ci / 3) (map (fun c => c / 3) new);
+  r_def : forall x y, openc vfl x y -> D x y \/ In (Some y) stk \/ deferred sf cl x;
+  r_cf : forall c', In c' cl -> c' < 3 * nf /\ nondeg c' /\ nth (vtx c2v c') hid None = None;
+  r_gv : Forall (fun o => match o with Some y => gatev vfl y | None => True end) stk;
+  r_sf : forall ci, sf = Some ci -> ci < 3 * nf /\ nondeg ci /\ nth (ci / 3) vfl false = true /\
+           nth (vtx c2v ci) hid None = None /\ nth (vtx c2v (prev_c ci)) hid None = None
+}.
+Definition Dcur (cur : option nat) : nat -> nat -> Prop := fun _ y => cur = Some y.
+Definition Dmark (c : nat) : nat -> nat -> Prop := fun x _ => x = next_c c \/ x = prev_c c.
+Definition RunP (sf cur : option nat) := RunG (Dcur cur) sf.
+
+Lemma gatev_mono l l' y : vle l l' -> gatev l y -> gatev l' y.
+Proof. intros [_ M] G x0 E. auto. Qed.
+
+Lemma deferred_mono sf cl cl' x : incl cl cl' -> deferred sf cl x -> deferred sf cl' x.
+Proof. intros I [(c' & A & B)|H]; [left; exists c'; auto|right; auto]. Qed.
+
+Lemma nth_upd_true (l : list bool) i j : nth j (upd l i true) false = true <-> (j = i /\ i < length l) \/ nth j l false = true.
+Proof.
+  rewrite nth_upd. destruct (j =? i) eqn:E; [apply Nat.eqb_eq in E|apply Nat.eqb_neq in E]; destruct (i <? length l) eqn:F;
+  [apply Nat.ltb_lt in F|apply Nat.ltb_ge in F|apply Nat.ltb_lt in F|apply Nat.ltb_ge in F]; simpl; split; auto; intros [[A B]|H]; auto; try lia.
+Qed.
+
+(* the face of the current corner c has just been visited *)
+Lemma run_mark sf cl new vfl stk c :
+  RunG (Dcur (Some c)) sf cl new vfl stk -> length vfl = nf -> c < 3 * nf -> nth (c / 3) vfl false = false -> gatev vfl c ->
+  ~ In (c / 3) (map (fun c => c / 3) new) ->
+  RunG (Dmark c) sf cl (c :: new) (upd vfl (c / 3) true) stk.
+Proof.
+  intros [R1 R2 R3 R4 R5 R6 R7] L Hc Hf Gv Nin.
+  assert (Hf3 : c / 3 < nf) by (apply Nat.div_lt_upper_bound; lia).
+  assert (M : vle vfl (upd vfl (c / 3) true)) by apply vle_upd.
+  constructor.
+  - intros a Ha. right. auto.
+  - intros l1 c' l2 E Hin x Hx Vx Hvis.
+    destruct l1 as [|a l1].
+    + simpl in E. inversion E; subst. exfalso. apply Nin. apply (in_map (fun c => c / 3)). auto.
+    + simpl in E. inversion E; subst a. apply nth_upd_true in Hvis. destruct Hvis as [[A _]|Hv0].
+      * cbn [app map In]. left. auto.
+      * cbn [app map In]. right. eapply R2; eauto.
+  - intros ci E. cbn [map In]. intros [X|X]; [|eapply R3; eauto].
+    destruct (R7 ci E) as (_ & _ & Vi & _). rewrite <- X in Vi. congruence.
+  - intros x y (Hx & Vx & Ox & Vy). apply nth_upd_true in Vx.
+    assert (Vy0 : nth (y / 3) vfl false = false).
+    { destruct (nth (y / 3) vfl false) eqn:Q; auto. destruct M as [_ M]. rewrite (M _ Q) in Vy. discriminate. }
+    destruct Vx as [[A _]|Vx0].
+    + destruct (face_corners _ _ A) as [X|[X|X]]; subst x.
+      * exfalso. specialize (Gv y Ox). congruence.
+      * left. left. auto.
+      * left. right. auto.
+    + destruct (R4 x y) as [X|[X|X]]; [repeat split; auto| | |].
+      * unfold Dcur in X. inversion X; subst y. rewrite nth_upd_eq in Vy by lia. discriminate.
+      * right. left. auto.
+      * right. right. auto.
+  - auto.
+  - eapply Forall_impl; [|exact R6]. intros [y|]; auto. apply gatev_mono; auto.
+  - intros ci E. destruct (R7 ci E) as (A & B & C & D). repeat split; auto; try apply D. apply M; auto.
+
+Qed.
+
+Lemma run_weaken (D D' : nat -> nat -> Prop) sf cl new vfl stk :
+  (forall x y, openc vfl x y -> D x y -> D' x y) -> RunG D sf cl new vfl stk -> RunG D' sf cl new vfl stk.
+Proof.
+  intros H [R1 R2 R3 R4 R5 R6 R7]. constructor; auto.
+  intros x y Op. destruct (R4 x y Op) as [X|X]; auto.
+Qed.
+
+(* symbol C: continue to the right, the left edge is deferred *)
+Lemma run_C sf cl new vfl stk c r0 :
+  RunG (Dmark c) sf cl (c :: new) vfl stk -> ~ In (c / 3) (map (fun c => c / 3) new) ->
+  (forall x, x < 3 * nf -> vtx c2v x = vtx c2v c -> nth (x / 3) vfl false = true -> x / 3 = c / 3) ->
+  c < 3 * nf -> nondeg c -> nth (vtx c2v c) hid None = None -> opp_at opp (next_c c) = Some r0 ->
+  RunG (Dcur (Some r0)) sf (c :: cl) (c :: new) vfl stk.
+Proof.
+  intros [R1 R2 R3 R4 R5 R6 R7] Nin Fresh Hc Hd Hh Er.
+  constructor; auto.
+  - intros a [X|X]; [left; auto|auto].
+  - intros l1 c' l2 E [X|Hin] x Hx Vx Hvis.
+    + subst c'. destruct l1 as [|a l1].
+      * simpl. left. symmetry. apply Fresh; auto.
+      * simpl in E. inversion E; subst a. exfalso. apply Nin. rewrite H1. rewrite map_app. apply in_or_app. right. simpl. auto.
+    + eapply R2; eauto.
+  - intros x y Op. destruct (R4 x y Op) as [[X|X]|[X|X]].
+    + left. destruct Op as (_ & _ & Ox & _). subst x. unfold Dcur. congruence.
+    + right. right. left. exists c. split; [left; auto|auto].
+    + right. left. auto.
+    + right. right. eapply deferred_mono; [|exact X]. intros a; right; auto.
+  - intros c' [X|X]; [subst c'; auto|auto].
+Qed.
+
+(* symbols R / L: one side is closed already, continue on the other *)
+Lemma run_RL sf cl new vfl stk c (xo xc : nat) y0 :
+  RunG (Dmark c) sf cl new vfl stk -> ((xo = next_c c /\ xc = prev_c c) \/ (xo = prev_c c /\ xc = next_c c)) ->
+  (forall y, opp_at opp xc = Some y -> nth (y / 3) vfl false = true) -> opp_at opp xo = Some y0 ->
+  RunG (Dcur (Some y0)) sf cl new vfl stk.
+Proof.
+  intros R Hx Hcl Eo. eapply run_weaken; [|exact R].
+  intros x y (_ & _ & Ox & Vy) [X|X]; unfold Dcur; destruct Hx as [[A B]|[A B]]; subst; try congruence;
+  exfalso; specialize (Hcl y Ox); congruence.
+Qed.
+
+Lemma run_pop (D : nat -> nat -> Prop) sf cl new vfl top r :
+  RunG D sf cl new vfl (top :: r) -> (forall t, top = Some t -> nth (t / 3) vfl false = true) -> RunG D sf cl new vfl r.
+Proof.
+  intros [R1 R2 R3 R4 R5 R6 R7] Ht. constructor; auto.
+  - intros x y Op. destruct (R4 x y Op) as [X|[[X|X]|X]]; auto.
+    exfalso. destruct Op as (_ & _ & _ & Vy). specialize (Ht y X). congruence.
+  - inversion R6; auto.
+Qed.
+
+(* symbol E: both sides closed *)
+Lemma run_E sf cl new vfl stk c :
+  RunG (Dmark c) sf cl new vfl stk ->
+  (forall y, opp_at opp (next_c c) = Some y -> nth (y / 3) vfl false = true) ->
+  (forall y, opp_at opp (prev_c c) = Some y -> nth (y / 3) vfl false = true) ->
+  RunG (Dcur None) sf cl new vfl stk.
+Proof.
+  intros R H1 H2. eapply run_weaken; [|exact R].
+  intros x y (_ & _ & Ox & Vy) [X|X]; subst x; exfalso; [specialize (H1 y Ox)|specialize (H2 y Ox)]; congruence.
+Qed.
+
+(* symbol S: both sides go onto the stack *)
+Lemma run_S sf cl new vfl top r c :
+  RunG (Dmark c) sf cl new vfl (top :: r) -> (forall t, top = Some t -> nth (t / 3) vfl false = true) ->
+  c < 3 * nf -> nth (c / 3) vfl false = true ->
+  RunG (Dcur None) sf cl new vfl (opp_at opp (next_c c) :: opp_at opp (prev_c c) :: r).
+Proof.
+  intros R Ht Hc Vc. apply run_pop in R; auto. destruct R as [R1 R2 R3 R4 R5 R6 R7]. constructor; auto.
+  - intros x y Op. destruct (R4 x y Op) as [[X|X]|[X|X]]; auto.
+    + right. left. left. destruct Op as (_ & _ & Ox & _). subst x. auto.
+    + right. left. right. left. destruct Op as (_ & _ & Ox & _). subst x. auto.
+    + right. left. right. right. auto.
+  - assert (G : forall x, x = next_c c \/ x = prev_c c -> match opp_at opp x with Some y => gatev vfl y | None => True end).
+    { intros x Hx. destruct (opp_at opp x) as [y|] eqn:E; auto. intros x0 E0.
+      destruct (opp_facts _ _ E) as (E' & _). rewrite E' in E0. inversion E0; subst x0.
+      destruct Hx; subst x; rewrite ?next_face, ?prev_face; auto. }
+    constructor; [apply G; auto|]. constructor; [apply G; auto|auto].
+Qed.
+
 Lemma ogate_opt vvl o : (forall x, o = Some x -> gate_ok vvl x) -> ogate_ok vvl o.
 Proof. destruct o; simpl; auto. Qed.
 
-Lemma inner_ok ifs : forall k s c top r, Inv ifs s -> stack s = top :: r -> stack_ok s -> gate_ok (vv s) c ->
+Lemma inner_ok ifs pcc0 sf : forall k s c top r cl new, Inv ifs s -> stack s = top :: r -> stack_ok s -> gate_ok (vv s) c ->
   nth (c / 3) (vf s) false = false ->
-  exists s', inner c2v opp hid k s (Some c) = EOk s' /\ Inv ifs s' /\ stack_ok s' /\
-     Phi s' + (match k with 0 => 0 | _ => 1 end) <= Phi s.
+  RunP sf (Some c) cl new (vf s) (stack s) -> pcc s = new ++ pcc0 -> gatev (vf s) c ->
+  (forall t, top = Some t -> t / 3 = c / 3 \/ nth (t / 3) (vf s) false = true) -> ucnt (vf s) <= k ->
+  exists s' cl' new', inner c2v opp hid k s (Some c) = EOk s' /\ Inv ifs s' /\ stack_ok s' /\
+     Phi s' + 1 <= Phi s /\
+     RunP sf None cl' new' (vf s') (stack s') /\ pcc s' = new' ++ pcc0 /\ vle (vf s) (vf s') /\
+     nth (c / 3) (vf s') false = true.
 Proof.
-  induction k as [|k' IH]; intros s c top r I St SO G Hf.
-  { exists s. split; [reflexivity|]. split; [auto|]. split; [auto|]. lia. }
+  induction k as [|k' IH]; intros s c top r cl new I St SO G Hf RP Pc Gv Htop Uk.
+  { exfalso. destruct G as (Hc & _). pose proof (i_base _ _ I) as B0.
+    pose proof (ucnt_upd (vf s) (c / 3) ltac:(rewrite (b_vf _ _ B0); apply Nat.div_lt_upper_bound; lia) Hf). lia. }
   destruct G as (Hc & Hd & G1 & G2).
   pose proof (i_base _ _ I) as B0.
   rewrite inner_eq by (auto; apply B0). cbv zeta.
@@ -405,6 +567,22 @@ Proof.
   { eapply Forall_impl; [|exact SO]. intros o. apply ogate_mono; auto. }
   assert (Vf2 : forall x, x / 3 <> c / 3 -> nth (x / 3) (vf s2) false = nth (x / 3) (vf s) false).
   { intros x Hx. rewrite F1. apply nth_upd_neq. auto. }
+  assert (Lf0 : length (vf s) = nf) by apply B0.
+  assert (M2 : vle (vf s) (vf s2)) by (rewrite F1; apply vle_upd).
+  assert (Vc2 : nth (c / 3) (vf s2) false = true) by (rewrite F1; apply nth_upd_eq; lia).
+  assert (Nin : ~ In (c / 3) (map (fun c => c / 3) new)).
+  { intro X. assert (Y : In (c / 3) (map (fun c => c / 3) (pcc s) ++ ifs)).
+    { apply in_or_app. left. rewrite Pc, map_app. apply in_or_app. left. auto. }
+    apply (b_in _ _ B0) in Y. destruct Y. congruence. }
+  assert (RM : RunG (Dmark c) sf cl (c :: new) (vf s2) (stack s)).
+  { rewrite F1. apply run_mark; auto. }
+  assert (Pc2 : pcc s2 = (c :: new) ++ pcc0).
+  { unfold s2, mark_state. cbv zeta. destruct (nth (vtx c2v c) (vv s) false); cbn [pcc with_pcc with_vv]; rewrite Pc; auto. }
+  assert (Top2 : forall t, top = Some t -> nth (t / 3) (vf s2) false = true).
+  { intros t Et. destruct (Htop t Et) as [X|X]; [rewrite X; auto|apply M2; auto]. }
+  assert (Uk2 : ucnt (vf s2) <= k') by lia.
+  assert (Gnb : forall x y, opp_at opp x = Some y -> x / 3 = c / 3 -> gatev (vf s2) y).
+  { intros x y E Ex x0 E0. destruct (opp_facts _ _ E) as (E' & _). rewrite E' in E0. inversion E0; subst x0. rewrite Ex. auto. }
   destruct (negb (nth (vtx c2v c) (vv s) false) && negb (is_some (nth (vtx c2v c) hid None))) eqn:EC.
   - (* TOPOLOGY_C *)
     apply andb_prop in EC. destruct EC as [E1 E2]. apply negb_true_iff in E1, E2.
@@ -417,11 +595,22 @@ Proof.
     { rewrite Vf2 by auto. destruct (nth (r0 / 3) (vf s) false) eqn:X; auto.
       destruct Gr as (Hr & _). destruct (b_vis _ _ B0 (next_c r0) (next_lt _ _ Hr)) as [_ Y]. rewrite next_face; auto.
       rewrite Vr in Y. congruence. }
-    destruct (IH (emit s2 TOPOLOGY_C) r0 top r) as (s' & R1 & R2 & R3 & R4); auto.
-    + apply emit_Inv; auto; [cbv; tauto|discriminate].
-    + simpl. rewrite F2. auto.
-    + unfold stack_ok. simpl. rewrite F2. auto.
-    + exists s'. split; [auto|]. split; [auto|]. split; [auto|]. unfold Phi in *. simpl in R4. rewrite F2 in R4. destruct k'; lia.
+    assert (Fresh : forall x, x < 3 * nf -> vtx c2v x = vtx c2v c -> nth (x / 3) (vf s2) false = true -> x / 3 = c / 3).
+    { intros x Hx Vx Hvis. rewrite F1 in Hvis. apply nth_upd_true in Hvis. destruct Hvis as [[A _]|Hv0]; auto.
+      destruct (b_vis _ _ B0 x Hx Hv0) as [_ Y]. rewrite Vx in Y. congruence. }
+    assert (A1 : Inv ifs (emit s2 TOPOLOGY_C)) by (apply emit_Inv; auto; [cbv; tauto|discriminate]).
+    assert (A2 : stack (emit s2 TOPOLOGY_C) = top :: r) by (simpl; rewrite F2; auto).
+    assert (A3 : stack_ok (emit s2 TOPOLOGY_C)) by (unfold stack_ok; simpl; rewrite F2; auto).
+    assert (A4 : RunP sf (Some r0) (c :: cl) (c :: new) (vf (emit s2 TOPOLOGY_C)) (stack (emit s2 TOPOLOGY_C))).
+    { cbn [emit with_syms vf stack]. rewrite F2. apply (run_C sf cl new (vf s2) (stack s) c r0); auto. }
+    assert (A5 : gatev (vf (emit s2 TOPOLOGY_C)) r0).
+    { cbn [emit with_syms vf]. apply (Gnb (next_c c) r0 Er). apply next_face. }
+    assert (A6 : forall t, top = Some t -> t / 3 = r0 / 3 \/ nth (t / 3) (vf (emit s2 TOPOLOGY_C)) false = true).
+    { intros t Et. right. cbn [emit with_syms vf]. auto. }
+    destruct (IH (emit s2 TOPOLOGY_C) r0 top r (c :: cl) (c :: new) A1 A2 A3 Gr Hr0 A4 Pc2 A5 A6 Uk2) as (s' & cl' & new' & R1 & R2 & R3 & R4 & R5 & R6 & R7 & R8).
+    exists s', cl', new'. split; [auto|]. split; [auto|]. split; [auto|].
+    split; [unfold Phi in *; simpl in R4; rewrite F2 in R4; lia|].
+    split; [auto|]. split; [auto|]. split; [eapply vle_trans; eauto|]. apply R7. auto.
   - (* not C *)
     clear EC.
     set (rc := opp_at opp (next_c c)) in *. set (lc := opp_at opp (prev_c c)) in *.
@@ -430,19 +619,20 @@ Proof.
     assert (Glc : forall x, lc = Some x -> gate_ok (vv s2) x /\ x / 3 <> c / 3).
     { intros x E. apply (left_gate (vv s2) c x Hc E F5 Gn). }
     assert (FV : forall vfl o, length vfl = nf -> (forall x, o = Some x -> x < 3 * nf) ->
-              exists b, face_visited_opt vfl o = EOk b /\ (b = false -> exists x, o = Some x /\ nth (x / 3) vfl false = false)).
+              exists b, face_visited_opt vfl o = EOk b /\ (b = false -> exists x, o = Some x /\ nth (x / 3) vfl false = false) /\
+                        (b = true -> forall x, o = Some x -> nth (x / 3) vfl false = true)).
     { intros vfl o L H. destruct o as [x|].
-      - rewrite fvo_some by auto. eexists. split; eauto.
-      - exists true. split; auto. discriminate. }
+      - rewrite fvo_some by auto. eexists. split; [reflexivity|]. split; [eauto|]. intros E x' Ex. inversion Ex; subst. auto.
+      - exists true. split; auto. split; [discriminate|]. intros _ x Ex. discriminate. }
     assert (Rlt : forall x, rc = Some x -> x < 3 * nf) by (intros x E; apply (Grc x E)).
     assert (Llt : forall x, lc = Some x -> x < 3 * nf) by (intros x E; apply (Glc x E)).
-    destruct (FV (vf s2) rc Lf2 Rlt) as (rfv & Erf & Hrf). rewrite Erf. cbn [ebind].
+    destruct (FV (vf s2) rc Lf2 Rlt) as (rfv & Erf & Hrf & Hrt). rewrite Erf. cbn [ebind].
     destruct rfv.
     + (* right visited *)
       pose proof (check_split_J ifs s2 RIGHT_FACE_EDGE rc (or_intror eq_refl) J2) as J3.
       destruct (check_split_frame s2 RIGHT_FACE_EDGE rc) as (C1 & C2 & C3 & C4).
       set (s3 := check_split s2 RIGHT_FACE_EDGE rc) in *.
-      destruct (FV (vf s3) lc ltac:(rewrite C1; auto) Llt) as (lfv & Elf & Hlf). rewrite Elf. cbn [ebind].
+      destruct (FV (vf s3) lc ltac:(rewrite C1; auto) Llt) as (lfv & Elf & Hlf & Hlt). rewrite Elf. cbn [ebind].
       destruct lfv.
       * (* E *)
         pose proof (check_split_J ifs s3 LEFT_FACE_EDGE lc (or_introl eq_refl) J3) as J4.
@@ -450,42 +640,80 @@ Proof.
         set (s4 := check_split s3 LEFT_FACE_EDGE lc) in *.
         pose proof (emit_Inv ifs s4 TOPOLOGY_E J4 ltac:(cbv; tauto) ltac:(discriminate)) as I5.
         cbn [emit with_syms stack]. rewrite D3, C3, F2, St.
-        eexists. split; [reflexivity|]. split; [|split].
+        assert (P4 : pcc s4 = pcc s2).
+        { unfold s4, s3, check_split. destruct lc, rc; repeat (destruct (split_symbol_on_face _ _)); reflexivity. }
+        eexists _, cl, (c :: new). split; [reflexivity|]. split; [|split; [|split; [|split; [|split; [|split]]]]].
         -- destruct I5 as [B5 X1 X2 X3]. destruct B5. constructor; auto. constructor; auto.
         -- unfold stack_ok. cbn [with_stack stack vv emit with_syms]. rewrite D2, C2. rewrite St in SO2. inversion SO2; auto.
         -- unfold Phi. cbn [with_stack stack vf emit with_syms]. rewrite D1, C1, St. simpl. lia.
+        -- cbn [with_stack stack vf emit with_syms]. rewrite D1, C1. apply (run_pop _ sf cl (c :: new) (vf s2) top r); auto.
+           rewrite <- St. apply (run_E sf cl (c :: new) (vf s2) (stack s) c RM).
+           ++ intros y Ey. apply (Hrt eq_refl y Ey).
+           ++ intros y Ey. rewrite <- C1. apply (Hlt eq_refl y Ey).
+        -- cbn [with_stack pcc emit with_syms]. rewrite P4. auto.
+        -- cbn [with_stack vf emit with_syms]. rewrite D1, C1. auto.
+        -- cbn [with_stack vf emit with_syms]. rewrite D1, C1. auto.
       * (* R *)
         destruct (Hlf eq_refl) as (l0 & El & Hl0). rewrite El.
         destruct (Glc l0 El) as (Gl & Nl).
-        destruct (IH (emit s3 TOPOLOGY_R) l0 top r) as (s' & R1 & R2 & R3 & R4); auto.
-        -- apply emit_Inv; auto; [cbv; tauto|discriminate].
-        -- simpl. rewrite C3, F2. auto.
-        -- unfold stack_ok. simpl. rewrite C3, C2, F2. auto.
-        -- simpl. rewrite C2. auto.
-        -- exists s'. split; [auto|]. split; [auto|]. split; [auto|]. unfold Phi in *. simpl in R4. rewrite C1, C3, F2 in R4. destruct k'; lia.
+        assert (P3 : pcc s3 = pcc s2).
+        { unfold s3, check_split. destruct rc; repeat (destruct (split_symbol_on_face _ _)); reflexivity. }
+        assert (A1 : Inv ifs (emit s3 TOPOLOGY_R)) by (apply emit_Inv; auto; [cbv; tauto|discriminate]).
+        assert (A2 : stack (emit s3 TOPOLOGY_R) = top :: r) by (simpl; rewrite C3, F2; auto).
+        assert (A3 : stack_ok (emit s3 TOPOLOGY_R)) by (unfold stack_ok; simpl; rewrite C3, C2, F2; auto).
+        assert (A3' : gate_ok (vv (emit s3 TOPOLOGY_R)) l0) by (simpl; rewrite C2; auto).
+        assert (A4 : RunP sf (Some l0) cl (c :: new) (vf (emit s3 TOPOLOGY_R)) (stack (emit s3 TOPOLOGY_R))).
+        { cbn [emit with_syms vf stack]. rewrite C1, C3, F2.
+          apply (run_RL sf cl (c :: new) (vf s2) (stack s) c (prev_c c) (next_c c) l0 RM); auto. }
+        assert (A4' : pcc (emit s3 TOPOLOGY_R) = (c :: new) ++ pcc0) by (cbn [emit with_syms pcc]; rewrite P3; auto).
+        assert (A5 : gatev (vf (emit s3 TOPOLOGY_R)) l0).
+        { cbn [emit with_syms vf]. rewrite C1. apply (Gnb (prev_c c) l0 El). apply prev_face. }
+        assert (A6 : forall t, top = Some t -> t / 3 = l0 / 3 \/ nth (t / 3) (vf (emit s3 TOPOLOGY_R)) false = true).
+        { intros t Et. right. cbn [emit with_syms vf]. rewrite C1. auto. }
+        assert (A7 : ucnt (vf (emit s3 TOPOLOGY_R)) <= k') by (cbn [emit with_syms vf]; rewrite C1; auto).
+        assert (A8 : nth (l0 / 3) (vf (emit s3 TOPOLOGY_R)) false = false) by (cbn [emit with_syms vf]; auto).
+        destruct (IH (emit s3 TOPOLOGY_R) l0 top r cl (c :: new) A1 A2 A3 A3' A8 A4 A4' A5 A6 A7) as (s' & cl' & new' & R1 & R2 & R3 & R4 & R5 & R6 & R7 & R8).
+        exists s', cl', new'. split; [auto|]. split; [auto|]. split; [auto|].
+        split; [unfold Phi in *; simpl in R4; rewrite C1, C3, F2 in R4; lia|].
+        cbn [emit with_syms vf] in R7. rewrite C1 in R7.
+        split; [auto|]. split; [auto|]. split; [eapply vle_trans; eauto|]. apply R7. auto.
     + (* right not visited *)
       destruct (Hrf eq_refl) as (r0 & Er & Hr0).
-      destruct (FV (vf s2) lc Lf2 Llt) as (lfv & Elf & Hlf). rewrite Elf. cbn [ebind].
+      destruct (FV (vf s2) lc Lf2 Llt) as (lfv & Elf & Hlf & Hlt). rewrite Elf. cbn [ebind].
       destruct lfv.
       * (* L *)
         pose proof (check_split_J ifs s2 LEFT_FACE_EDGE lc (or_introl eq_refl) J2) as J3.
         destruct (check_split_frame s2 LEFT_FACE_EDGE lc) as (C1 & C2 & C3 & C4).
         set (s3 := check_split s2 LEFT_FACE_EDGE lc) in *.
         rewrite Er. destruct (Grc r0 Er) as (Gr & Nr).
-        destruct (IH (emit s3 TOPOLOGY_L) r0 top r) as (s' & R1 & R2 & R3 & R4); auto.
-        -- apply emit_Inv; auto; [cbv; tauto|discriminate].
-        -- simpl. rewrite C3, F2. auto.
-        -- unfold stack_ok. simpl. rewrite C3, C2, F2. auto.
-        -- simpl. rewrite C2. auto.
-        -- simpl. rewrite C1. auto.
-        -- exists s'. split; [auto|]. split; [auto|]. split; [auto|]. unfold Phi in *. simpl in R4. rewrite C1, C3, F2 in R4. destruct k'; lia.
+        assert (P3 : pcc s3 = pcc s2).
+        { unfold s3, check_split. destruct lc; repeat (destruct (split_symbol_on_face _ _)); reflexivity. }
+        assert (A1 : Inv ifs (emit s3 TOPOLOGY_L)) by (apply emit_Inv; auto; [cbv; tauto|discriminate]).
+        assert (A2 : stack (emit s3 TOPOLOGY_L) = top :: r) by (simpl; rewrite C3, F2; auto).
+        assert (A3 : stack_ok (emit s3 TOPOLOGY_L)) by (unfold stack_ok; simpl; rewrite C3, C2, F2; auto).
+        assert (A3' : gate_ok (vv (emit s3 TOPOLOGY_L)) r0) by (simpl; rewrite C2; auto).
+        assert (A4 : RunP sf (Some r0) cl (c :: new) (vf (emit s3 TOPOLOGY_L)) (stack (emit s3 TOPOLOGY_L))).
+        { cbn [emit with_syms vf stack]. rewrite C1, C3, F2.
+          apply (run_RL sf cl (c :: new) (vf s2) (stack s) c (next_c c) (prev_c c) r0 RM); auto. }
+        assert (A4' : pcc (emit s3 TOPOLOGY_L) = (c :: new) ++ pcc0) by (cbn [emit with_syms pcc]; rewrite P3; auto).
+        assert (A5 : gatev (vf (emit s3 TOPOLOGY_L)) r0).
+        { cbn [emit with_syms vf]. rewrite C1. apply (Gnb (next_c c) r0 Er). apply next_face. }
+        assert (A6 : forall t, top = Some t -> t / 3 = r0 / 3 \/ nth (t / 3) (vf (emit s3 TOPOLOGY_L)) false = true).
+        { intros t Et. right. cbn [emit with_syms vf]. rewrite C1. auto. }
+        assert (A7 : ucnt (vf (emit s3 TOPOLOGY_L)) <= k') by (cbn [emit with_syms vf]; rewrite C1; auto).
+        assert (A8 : nth (r0 / 3) (vf (emit s3 TOPOLOGY_L)) false = false) by (cbn [emit with_syms vf]; rewrite C1; auto).
+        destruct (IH (emit s3 TOPOLOGY_L) r0 top r cl (c :: new) A1 A2 A3 A3' A8 A4 A4' A5 A6 A7) as (s' & cl' & new' & R1 & R2 & R3 & R4 & R5 & R6 & R7 & R8).
+        exists s', cl', new'. split; [auto|]. split; [auto|]. split; [auto|].
+        split; [unfold Phi in *; simpl in R4; rewrite C1, C3, F2 in R4; lia|].
+        cbn [emit with_syms vf] in R7. rewrite C1 in R7.
+        split; [auto|]. split; [auto|]. split; [eapply vle_trans; eauto|]. apply R7. auto.
       * (* S *)
         pose proof (emit_S_Inv ifs s2 J2) as I3.
         set (s3 := with_nsplit (emit s2 TOPOLOGY_S) (S (nsplit (emit s2 TOPOLOGY_S)))) in *.
         change (nsplit (emit s2 TOPOLOGY_S)) with (nsplit s2) in *.
         assert (H4 : exists s4, (match nth (vtx c2v c) hid None with
                   | Some hole => b <-- eget (vhole s3) hole ;; if b then EOk s3 else encode_hole c2v opp hid s3 c false
-                  | None => EOk s3 end) = EOk s4 /\ Inv ifs s4 /\ vle (vv s3) (vv s4) /\ vf s4 = vf s3 /\ stack s4 = stack s3 /\ syms s4 = syms s3).
+                  | None => EOk s3 end) = EOk s4 /\ Inv ifs s4 /\ vle (vv s3) (vv s4) /\ vf s4 = vf s3 /\ stack s4 = stack s3 /\ syms s4 = syms s3 /\ pcc s4 = pcc s3).
         { assert (Lh3 : length (vhole s3) = nh) by apply (i_base _ _ I3).
           destruct (nth (vtx c2v c) hid None) as [hole|] eqn:Eh.
           - rewrite (eget_lt (vhole s3) hole false) by (rewrite Lh3; eapply Hhr; eauto). cbn [ebind].
@@ -494,12 +722,12 @@ Proof.
             + destruct (EH s3 c false) as (vv' & vh' & E1 & E2 & E3 & _); auto; try apply (i_base _ _ I3). congruence.
               rewrite E1. eexists. split; [reflexivity|]. split; [apply Inv_vv; auto|]. split; [exact E2|]. auto.
           - exists s3. split; [reflexivity|]. split; [exact I3|]. split; [apply vle_refl|]. auto. }
-        destruct H4 as (s4 & E4 & I4 & M4 & Vf4 & St4 & Sy4). rewrite E4. cbn [ebind].
+        destruct H4 as (s4 & E4 & I4 & M4 & Vf4 & St4 & Sy4 & Pc4). rewrite E4. cbn [ebind].
         assert (Ns : syms s4 <> []) by (rewrite Sy4; discriminate).
         pose proof (Inv_f2s ifs s4 (c / 3) I4 Ns) as I5.
         set (s5 := with_f2s s4 ((c / 3, last_id s4) :: f2s s4)) in *.
         assert (St5 : stack s5 = top :: r) by (cbn [s5 with_f2s stack]; rewrite St4; cbn [s3 stack with_nsplit emit with_syms]; rewrite F2; auto).
-        rewrite St5. eexists. split; [reflexivity|]. split; [|split].
+        rewrite St5. eexists _, cl, (c :: new). split; [reflexivity|]. split; [|split; [|split; [|split; [|split; [|split]]]]].
         -- destruct I5 as [B5 X1 X2 X3]. destruct B5. constructor; auto. constructor; auto.
         -- unfold stack_ok. cbn [with_stack stack vv s5 with_f2s].
            assert (M : vle (vv s2) (vv s4)) by exact M4.
@@ -508,6 +736,11 @@ Proof.
            ++ apply ogate_opt. intros x E. eapply gate_mono; [exact M|apply (Glc x E)].
            ++ rewrite St in SO2. inversion SO2; subst. eapply Forall_impl; [|eassumption]. intros o. apply ogate_mono; auto.
         -- unfold Phi. cbn [with_stack stack vf s5 with_f2s]. rewrite Vf4. cbn [s3 vf with_nsplit emit with_syms]. rewrite St. simpl. lia.
+        -- cbn [with_stack stack vf s5 with_f2s]. rewrite Vf4. cbn [s3 vf with_nsplit emit with_syms].
+           apply (run_S sf cl (c :: new) (vf s2) top r c); auto. rewrite <- St. auto.
+        -- cbn [with_stack pcc s5 with_f2s]. rewrite Pc4. cbn [s3 pcc with_nsplit emit with_syms]. auto.
+        -- cbn [with_stack vf s5 with_f2s]. rewrite Vf4. cbn [s3 vf with_nsplit emit with_syms]. auto.
+        -- cbn [with_stack vf s5 with_f2s]. rewrite Vf4. cbn [s3 vf with_nsplit emit with_syms]. auto.
 Qed.
 
 Lemma Inv_stack ifs s st : Inv ifs s -> Inv ifs (with_stack s st).
@@ -515,42 +748,89 @@ Proof. intros [B A1 A2 A3]. destruct B. constructor; auto. constructor; auto. Qe
 
 Lemma ucnt_le l : ucnt l <= length l. Proof. unfold ucnt. lia. Qed.
 
-Lemma outer_ok ifs : forall fuel s, Inv ifs s -> stack_ok s -> Phi s < fuel ->
-  exists s', outer c2v opp hid fuel s = EOk s' /\ Inv ifs s' /\ stack s' = [].
+Lemma outer_ok ifs pcc0 sf : forall fuel s cl new, Inv ifs s -> stack_ok s -> Phi s < fuel ->
+  RunP sf None cl new (vf s) (stack s) -> pcc s = new ++ pcc0 ->
+  exists s' cl' new', outer c2v opp hid fuel s = EOk s' /\ Inv ifs s' /\ stack s' = [] /\
+    RunP sf None cl' new' (vf s') [] /\ pcc s' = new' ++ pcc0 /\ vle (vf s) (vf s') /\
+    (forall t r0, stack s = Some t :: r0 -> nth (t / 3) (vf s') false = true).
 Proof.
-  induction fuel as [|k IH]; intros s I SO HP; [lia|].
+  induction fuel as [|k IH]; intros s cl new I SO HP RP Pc; [lia|].
   cbn [outer]. destruct (stack s) as [|top r] eqn:St.
-  - exists s. auto.
-  - assert (Pop : exists s', outer c2v opp hid k (with_stack s r) = EOk s' /\ Inv ifs s' /\ stack s' = []).
-    { apply IH. apply Inv_stack; auto. unfold stack_ok in *. cbn [with_stack stack vv]. rewrite St in SO. inversion SO; auto.
-      unfold Phi in *. cbn [with_stack stack vf]. rewrite St in HP. simpl in HP. lia. }
-    destruct top as [c|]; auto.
+  - exists s, cl, new. split; [auto|]. split; [auto|]. split; [auto|]. split; [auto|]. split; [auto|]. split; [apply vle_refl|].
+    intros t r0 E. discriminate.
+  - assert (Pop : (forall t, top = Some t -> nth (t / 3) (vf s) false = true) ->
+       exists s' cl' new', outer c2v opp hid k (with_stack s r) = EOk s' /\ Inv ifs s' /\ stack s' = [] /\
+         RunP sf None cl' new' (vf s') [] /\ pcc s' = new' ++ pcc0 /\ vle (vf s) (vf s') /\
+         (forall t r0, top :: r = Some t :: r0 -> nth (t / 3) (vf s') false = true)).
+    { intros Ht. destruct (IH (with_stack s r) cl new) as (s' & cl' & new' & A1 & A2 & A3 & A4 & A5 & A6 & A7).
+      - apply Inv_stack; auto.
+      - unfold stack_ok in *. cbn [with_stack stack vv]. rewrite St in SO. inversion SO; auto.
+      - unfold Phi in *. cbn [with_stack stack vf]. rewrite St in HP. simpl in HP. lia.
+      - cbn [with_stack stack vf]. eapply run_pop; eauto.
+      - auto.
+      - exists s', cl', new'. split; [exact A1|]. split; [exact A2|]. split; [exact A3|]. split; [exact A4|]. split; [exact A5|].
+        split; [exact A6|]. intros t r0 E. inversion E; subst. apply A6. apply Ht. auto. }
+    destruct top as [c|]; [|apply Pop; intros t E; discriminate].
     assert (G : gate_ok (vv s) c). { unfold stack_ok in SO. rewrite St in SO. inversion SO; auto. }
     assert (Hf3 : c / 3 < nf) by (destruct G; apply Nat.div_lt_upper_bound; lia).
     rewrite (eget_lt (vf s) (c / 3) false) by (rewrite (b_vf _ _ (i_base _ _ I)); auto). cbn [ebind].
-    destruct (nth (c / 3) (vf s) false) eqn:Ef; auto.
+    destruct (nth (c / 3) (vf s) false) eqn:Ef.
+    { apply Pop. intros t E. inversion E; subst. auto. }
     rewrite NF_eq.
-    destruct (inner_ok ifs nf s c (Some c) r I St SO G Ef) as (s1 & E1 & I1 & SO1 & P1). rewrite E1. cbn [ebind].
-    apply IH; auto. destruct nf; lia.
+    assert (RPc : RunP sf (Some c) cl new (vf s) (Some c :: r)).
+    { eapply run_weaken; [|exact RP]. intros x y _ X. unfold Dcur in X. discriminate. }
+    rewrite <- St in RPc.
+    assert (Gv : gatev (vf s) c). { destruct RP as [_ _ _ _ _ R6 _]. inversion R6; auto. }
+    assert (Uk : ucnt (vf s) <= nf). { pose proof (ucnt_le (vf s)). rewrite (b_vf _ _ (i_base _ _ I)) in H. auto. }
+    destruct (inner_ok ifs pcc0 sf nf s c (Some c) r cl new I St SO G Ef RPc Pc Gv ltac:(intros t E; inversion E; auto) Uk)
+      as (s1 & cl1 & new1 & E1 & I1 & SO1 & P1 & RP1 & Pc1 & M1 & V1). rewrite E1. cbn [ebind].
+    destruct (IH s1 cl1 new1 I1 SO1 ltac:(lia) RP1 Pc1) as (s' & cl' & new' & A1 & A2 & A3 & A4 & A5 & A6 & A7).
+    exists s', cl', new'. split; [exact A1|]. split; [exact A2|]. split; [exact A3|]. split; [exact A4|]. split; [exact A5|].
+    split; [eapply vle_trans; eauto|].
+    intros t r0 E. inversion E; subst. apply A6. auto.
 Qed.
 
-Lemma from_corner_ok ifs s c : Inv ifs s -> gate_ok (vv s) c ->
-  exists s', from_corner c2v opp hid s (Some c) = EOk s' /\ Inv ifs s' /\ stack s' = [].
+Lemma from_corner_ok ifs pcc0 sf s c cl new : Inv ifs s -> gate_ok (vv s) c ->
+  RunP sf None cl new (vf s) [Some c] -> pcc s = new ++ pcc0 ->
+  exists s' cl' new', from_corner c2v opp hid s (Some c) = EOk s' /\ Inv ifs s' /\ stack s' = [] /\
+    RunP sf None cl' new' (vf s') [] /\ pcc s' = new' ++ pcc0 /\ vle (vf s) (vf s') /\ nth (c / 3) (vf s') false = true.
 Proof.
-  intros I G. unfold from_corner. apply outer_ok.
+  intros I G RP Pc. unfold from_corner.
+  destruct (outer_ok ifs pcc0 sf (outer_fuel c2v) (with_stack s [Some c]) cl new) as (s' & cl' & new' & A1 & A2 & A3 & A4 & A5 & A6 & A7).
   - apply Inv_stack; auto.
   - unfold stack_ok. cbn [with_stack stack vv]. constructor; auto.
   - unfold Phi, outer_fuel. cbn [with_stack stack vf length]. rewrite NF_eq.
     pose proof (ucnt_le (vf s)). rewrite (b_vf _ _ (i_base _ _ I)) in H. lia.
+  - auto.
+  - auto.
+  - exists s', cl', new'. split; [exact A1|]. split; [exact A2|]. split; [exact A3|]. split; [exact A4|]. split; [exact A5|].
+    split; [exact A6|]. apply (A7 c []). auto.
 Qed.
 
 Hypothesis FI : forall f, f < nf -> is_degenerated c2v f = false ->
   exists start interior, find_init c2v opp hid f = EOk (start, interior) /\ start < 3 * nf /\
-    (interior = true -> start / 3 = f) /\ (interior = false -> nondeg start /\ opp_at opp start = None).
+    (interior = true -> start / 3 = f /\
+       forall x, x < 3 * nf -> x / 3 = f -> opp_at opp x <> None /\ nth (vtx c2v x) hid None = None) /\
+    (interior = false -> nondeg start /\ opp_at opp start = None /\
+       exists c y, c / 3 = f /\ c < 3 * nf /\ y < 3 * nf /\ vtx c2v c = vtx c2v y /\ nondeg y /\ start = prev_c y).
 
-Definition ECinv (st : eres (est * list bool * list nat)) : Prop :=
+(** no visited face has an unvisited neighbour *)
+Definition CLOSED (vfl : list bool) : Prop := forall x y, ~ openc vfl x y.
+
+(** closure at the end of a run, and propagation of `visited` around a vertex: proved in Section Closure below from the
+    one-fan property (they need walks around vertices) *)
+Hypothesis ENDH : forall sf cl new vfl, RunP sf None cl new vfl [] -> NoDup (map (fun c => c / 3) new) ->
+  (forall x, x < 3 * nf -> nth (x / 3) vfl false = true -> nondeg x) -> length vfl = nf -> CLOSED vfl.
+Hypothesis FANC : forall vfl a b, CLOSED vfl -> (forall x, x < 3 * nf -> nth (x / 3) vfl false = true -> nondeg x) ->
+  a < 3 * nf -> b < 3 * nf -> nondeg a -> nondeg b -> vtx c2v a = vtx c2v b ->
+  nth (a / 3) vfl false = true -> nth (b / 3) vfl false = true.
+
+Definition ECinv (done : list nat) (st : eres (est * list bool * list nat)) : Prop :=
   exists s bits inits, st = EOk (s, bits, inits) /\ Inv (map (fun c => c / 3) (rev inits)) s /\
-    Forall (fun c => c < 3 * nf) inits /\ length inits = count_occ bool_dec bits true.
+    Forall (fun c => c < 3 * nf) inits /\ length inits = count_occ bool_dec bits true /\
+    CLOSED (vf s) /\
+    (forall i, In i done -> i < 3 * nf -> is_degenerated c2v (i / 3) = false -> nth (i / 3) (vf s) false = true) /\
+    3 * length inits <= length (pcc s).
 
 Lemma Inv_init ifs s f vv' : Inv ifs s -> f < nf -> nth f (vf s) false = false -> is_degenerated c2v f = false ->
   vle (vv s) vv' -> (forall x, x < 3 * nf -> x / 3 = f -> nth (vtx c2v x) vv' false = true) ->
@@ -570,17 +850,59 @@ Proof.
     + intros [H1 H2]. destruct (g =? f) eqn:E; [right; left; apply Nat.eqb_eq in E; auto|left; split; auto].
 Qed.
 
-Lemma ec_corner_ok st c_id : c_id < 3 * nf -> ECinv st -> ECinv (ec_corner c2v opp hid st c_id).
+Lemma NoDup_app_l {A} (l1 l2 : list A) : NoDup (l1 ++ l2) -> NoDup l1.
+Proof. induction l1; simpl; intros H; [constructor|]. inversion H; subst. constructor; auto. intro X. apply H2. apply in_or_app; auto. Qed.
+
+Lemma run_closed ifs pcc0 sf cl new s : Inv ifs s -> RunP sf None cl new (vf s) [] -> pcc s = new ++ pcc0 -> CLOSED (vf s).
 Proof.
-  intros Hc (s & bits & inits & -> & I & Fi & Cb). unfold ec_corner. cbn [ebind].
+  intros I RP Pc. pose proof (i_base _ _ I) as B0. apply (ENDH sf cl new); auto.
+  - pose proof (b_nd _ _ B0) as N. rewrite Pc, map_app, <- app_assoc in N. apply NoDup_app_l in N. auto.
+  - intros x Hx Hvis. apply (b_vis _ _ B0 x Hx Hvis).
+  - apply B0.
+Qed.
+
+(* the faces across two different edges of a face are different *)
+Lemma nbr_next_distinct a o1 o2 : opp_at opp a = Some o1 -> opp_at opp (next_c a) = Some o2 -> o1 / 3 <> o2 / 3.
+Proof.
+  intros E1 E2 F. destruct (opp_facts _ _ E1) as (E1' & La & Lo1 & Da & Do1 & _ & V1 & V2).
+  destruct (opp_facts _ _ E2) as (E2' & _ & Lo2 & _ & Do2 & _ & W1 & W2).
+  rewrite next_next in W1. rewrite prev_next in W2.
+  pose proof OK as [_ K]. destruct (K _ _ E1) as (_ & _ & _ & _ & Nv & _).
+  destruct (nondeg_corner _ _ Do1) as (N1 & N2 & N3).
+  symmetry in F. destruct (face_corners _ _ F) as [X|[X|X]]; subst o2.
+  - rewrite E1' in E2'. inversion E2'. apply (next_neq a). auto.
+  - rewrite prev_next in W1. congruence.
+  - rewrite next_prev in W2. congruence.
+Qed.
+
+Lemma three_faces (l : list nat) g0 g1 g2 : In g0 l -> In g1 l -> In g2 l -> g0 <> g1 -> g1 <> g2 -> g0 <> g2 -> 3 <= length l.
+Proof.
+  intros I0 I1 I2 N01 N12 N02.
+  assert (ND : NoDup [g0; g1; g2]).
+  { constructor; [simpl; intuition|]. constructor; [simpl; intuition|]. constructor; [simpl; intuition|constructor]. }
+  assert (Incl : incl [g0; g1; g2] l) by (intros x [X|[X|[X|[]]]]; subst; auto).
+  apply (NoDup_incl_length ND Incl).
+Qed.
+
+Lemma ec_corner_ok done st c_id : c_id < 3 * nf -> ECinv done st -> ECinv (c_id :: done) (ec_corner c2v opp hid st c_id).
+Proof.
+  intros Hc (s & bits & inits & -> & I & Fi & Cb & CL & DN & T3). unfold ec_corner. cbn [ebind].
   assert (Hf3 : c_id / 3 < nf) by (apply Nat.div_lt_upper_bound; lia).
   pose proof (i_base _ _ I) as B0.
   rewrite (eget_lt (vf s) (c_id / 3) false) by (rewrite (b_vf _ _ B0); auto). cbn [ebind].
-  destruct (nth (c_id / 3) (vf s) false) eqn:Ef. { exists s, bits, inits. auto. }
-  destruct (is_degenerated c2v (c_id / 3)) eqn:Ed. { exists s, bits, inits. auto. }
+  destruct (nth (c_id / 3) (vf s) false) eqn:Ef.
+  { exists s, bits, inits. split; [auto|]. split; [auto|]. split; [auto|]. split; [auto|]. split; [auto|]. split; [|auto].
+    intros i [X|X] Hi Di; [subst; auto|auto]. }
+  destruct (is_degenerated c2v (c_id / 3)) eqn:Ed.
+  { exists s, bits, inits. split; [auto|]. split; [auto|]. split; [auto|]. split; [auto|]. split; [auto|]. split; [|auto].
+    intros i [X|X] Hi Di; [subst; congruence|auto]. }
   destruct (FI _ Hf3 Ed) as (start & interior & E1 & Hs & HI & HB). rewrite E1. cbn [ebind].
   destruct interior.
-  - specialize (HI eq_refl). clear HB.
+  - destruct (HI eq_refl) as (HI1 & HIall). clear HB HI. rename HI1 into HI.
+    destruct (HIall start Hs HI) as (_ & HI3).
+    destruct (HIall (prev_c start) (prev_lt _ _ Hs) ltac:(rewrite prev_face; auto)) as (HIp & HI4).
+    destruct (HIall (next_c start) (next_lt _ _ Hs) ltac:(rewrite next_face; auto)) as (HI2 & _).
+    destruct (HIall start Hs HI) as (HIs & _).
     rewrite (e_vertex_ok start Hs), (e_vertex_ok (next_c start)), (e_vertex_ok (prev_c start)) by (try apply next_lt; try apply prev_lt; auto).
     cbn [ebind].
     pose proof (Hv start Hs) as V1. pose proof (Hv _ (next_lt _ _ Hs)) as V2. pose proof (Hv _ (prev_lt _ _ Hs)) as V3.
@@ -606,34 +928,112 @@ Proof.
     { cbn [rev]. rewrite map_app. cbn [map]. cbv beta. rewrite (next_face start), HI. apply Inv_init; auto.
       intros x Hx Ex. rewrite <- HI in Ex. destruct (face_corners _ _ Ex) as [X|[X|X]]; subst x; auto. }
     set (s1 := with_vf (with_vv s vv') (upd (vf s) (c_id / 3) true)) in *.
-    assert (Done : ECinv (EOk (s1, true :: bits, next_c start :: inits))).
-    { exists s1, (true :: bits), (next_c start :: inits). split; auto. split; auto. split.
-      constructor; auto. apply next_lt; auto. cbn [length count_occ]. destruct (bool_dec true true); [lia|congruence]. }
+    assert (Dd : nondeg start) by (unfold nondeg; rewrite HI; auto).
+    assert (Lf : length (vf s) = nf) by apply B0.
+    assert (Vf1 : vf s1 = upd (vf s) (c_id / 3) true) by reflexivity.
+    assert (M1 : vle (vf s) (vf s1)) by (rewrite Vf1; apply vle_upd).
+    assert (Vs1 : nth (c_id / 3) (vf s1) false = true) by (rewrite Vf1; apply nth_upd_eq; lia).
     rewrite (e_opp_ok (next_c start)) by (apply next_lt; auto). cbn [ebind].
-    destruct (opp_at opp (next_c start)) as [oc|] eqn:Eo; auto.
-    destruct (right_gate vv' start oc Hs Eo A1 A3) as (Go & _ & _).
+    destruct (opp_at opp (next_c start)) as [oc|] eqn:Eo; [|congruence].
+    destruct (right_gate vv' start oc Hs Eo A1 A3) as (Go & Nf & _).
+    destruct (opp_facts _ _ Eo) as (Eo' & _).
     assert (Ho3 : oc / 3 < nf) by (destruct Go; apply Nat.div_lt_upper_bound; lia).
     cbn [s1 with_vf vf]. rewrite (eget_lt (upd (vf s) (c_id / 3) true) (oc / 3) false) by (rewrite upd_length, (b_vf _ _ B0); auto). cbn [ebind].
-    destruct (nth (oc / 3) (upd (vf s) (c_id / 3) true) false); auto.
-    destruct (from_corner_ok _ s1 oc I1 Go) as (s' & E' & I' & _). fold s1. rewrite E'. cbn [ebind].
+    destruct (nth (oc / 3) (upd (vf s) (c_id / 3) true) false) eqn:Eov.
+    { exfalso. rewrite nth_upd_neq in Eov by (rewrite <- HI; auto).
+      apply (CL oc (next_c start)). destruct Go as (Lo & _). repeat split; auto. rewrite next_face, HI. auto. }
+    assert (RP : RunP (Some start) None [] [] (vf s1) [Some oc]).
+    { constructor.
+      - intros a [].
+      - intros l1 c' l2 _ [].
+      - intros ci _ [].
+      - intros x y (Hx & Vx & Ox & Vy). rewrite Vf1 in Vx, Vy. apply nth_upd_true in Vx. destruct Vx as [[A _]|Vx0].
+        + rewrite <- HI in A. destruct (face_corners _ _ A) as [X|[X|X]]; subst x.
+          * right. right. right. exists start. auto.
+          * right. left. left. congruence.
+          * right. right. right. exists start. auto.
+        + exfalso. apply (CL x y). repeat split; auto.
+          destruct (nth (y / 3) (vf s) false) eqn:Q; auto. rewrite (proj2 (vle_upd (vf s) (c_id / 3)) _ Q) in Vy. discriminate.
+      - intros c' [].
+      - constructor; [|constructor]. intros x0 E0. rewrite Eo' in E0. inversion E0; subst x0. rewrite next_face, HI. auto.
+      - intros ci E. inversion E; subst ci. rewrite HI. repeat split; auto. }
+    destruct (from_corner_ok _ (pcc s1) (Some start) s1 oc [] [] I1 Go RP eq_refl) as (s' & cl' & new' & E' & I' & St' & RP' & Pc' & M' & Vo').
+    fold s1. rewrite E'. cbn [ebind].
     exists s', (true :: bits), (next_c start :: inits). split; auto. split; auto. split.
-    constructor; auto. apply next_lt; auto. cbn [length count_occ]. destruct (bool_dec true true); [lia|congruence].
-  - destruct (HB eq_refl) as (Dn & On). clear HI HB.
+    { constructor; auto. apply next_lt; auto. }
+    split. { cbn [length count_occ]. destruct (bool_dec true true); [lia|congruence]. }
+    assert (CL' : CLOSED (vf s')) by (eapply run_closed; eauto).
+    split; [exact CL'|]. split.
+    { intros i [X|X] Hi Di.
+      + subst i. apply M'. auto.
+      + apply M'. apply M1. auto. }
+    (* at least three symbols in this run: the three neighbours of the start face *)
+    assert (L3 : 3 <= length new').
+    { destruct (opp_at opp start) as [o0|] eqn:E0; [|congruence].
+      destruct (opp_at opp (prev_c start)) as [o2|] eqn:E2; [|congruence].
+      pose proof (i_base _ _ I') as B'.
+      assert (InN : forall a o, a / 3 = c_id / 3 -> opp_at opp a = Some o -> In (o / 3) (map (fun c => c / 3) new')).
+      { intros a o Fa Ea. destruct (opp_facts _ _ Ea) as (Ea' & La & Lo & _ & _ & Nf' & _).
+        assert (Vis' : nth (o / 3) (vf s') false = true).
+        { destruct (nth (o / 3) (vf s') false) eqn:Q; auto. exfalso. apply (CL' a o). repeat split; auto. rewrite Fa. apply M'. auto. }
+        assert (Nvis : nth (o / 3) (vf s) false = false).
+        { destruct (nth (o / 3) (vf s) false) eqn:Q; auto. exfalso. apply (CL o a). repeat split; auto. rewrite Fa. auto. }
+        assert (In1 : In (o / 3) (map (fun c => c / 3) (pcc s') ++ map (fun c => c / 3) (rev (next_c start :: inits)))).
+        { apply (b_in _ _ B'). split; auto. apply Nat.div_lt_upper_bound; lia. }
+        rewrite Pc', map_app in In1. cbn [rev] in In1. rewrite map_app in In1. cbn [map] in In1.
+        rewrite next_face, HI in In1.
+        apply in_app_or in In1. destruct In1 as [In1|In1].
+        - apply in_app_or in In1. destruct In1 as [In1|In1]; auto. exfalso.
+          assert (X : In (o / 3) (map (fun c => c / 3) (pcc s) ++ map (fun c => c / 3) (rev inits))) by (apply in_or_app; auto).
+          apply (b_in _ _ B0) in X. destruct X. congruence.
+        - apply in_app_or in In1. destruct In1 as [In1|[In1|[]]].
+          + exfalso. assert (X : In (o / 3) (map (fun c => c / 3) (pcc s) ++ map (fun c => c / 3) (rev inits))) by (apply in_or_app; auto).
+            apply (b_in _ _ B0) in X. destruct X. congruence.
+          + exfalso. apply Nf'. rewrite Fa. auto. }
+      rewrite <- (map_length (fun c => c / 3) new'). apply (three_faces (map (fun c => c / 3) new') (o0 / 3) (oc / 3) (o2 / 3)).
+      - apply (InN start); auto.
+      - apply (InN (next_c start)); auto. rewrite next_face; auto.
+      - apply (InN (prev_c start)); auto. rewrite prev_face; auto.
+      - apply (nbr_next_distinct start); auto.
+      - intro X. apply (nbr_next_distinct (next_c start) oc o2); auto. rewrite next_next. auto.
+      - intro X. apply (nbr_next_distinct (prev_c start) o2 o0); auto. rewrite next_prev. auto. }
+    cbn [length]. rewrite Pc', app_length. cbn [s1 with_vf with_vv pcc]. lia.
+  - destruct (HB eq_refl) as (Dn & On & cc & yy & F1 & F2 & F3 & F4 & F5 & F6). clear HI HB.
     destruct (Hhb start Hs Dn On) as (Hn1 & Hn2).
     assert (Dn' : nondeg (next_c start)) by (unfold nondeg in *; rewrite next_face; auto).
     destruct (EH s (next_c start) true (b_vv _ _ B0) (b_vh _ _ B0) (next_lt _ _ Hs) Dn' Hn1) as (vv' & vh' & E2 & M & Lh & Fst).
     destruct (Fst eq_refl) as (A1 & A2). rewrite prev_next in A2. specialize (A2 On).
     rewrite E2. cbn [ebind].
     pose proof (Inv_vv _ s vv' vh' I M Lh) as I1.
-    destruct (from_corner_ok _ _ start I1) as (s' & E' & I' & _).
-    { repeat split; auto. }
+    set (s1 := with_vhole (with_vv s vv') vh') in *.
+    assert (RP : RunP None None [] [] (vf s1) [Some start]).
+    { constructor.
+      - intros a [].
+      - intros l1 c' l2 _ [].
+      - intros ci E. discriminate.
+      - intros x y Op. exfalso. apply (CL x y). auto.
+      - intros c' [].
+      - constructor; [|constructor]. intros x0 E0. congruence.
+      - intros ci E. discriminate. }
+    destruct (from_corner_ok _ (pcc s1) None s1 start [] [] I1 ltac:(repeat split; auto) RP eq_refl)
+      as (s' & cl' & new' & E' & I' & St' & RP' & Pc' & M' & Vo').
     rewrite E'. cbn [ebind].
-    exists s', (false :: bits), inits. split; auto.
+    assert (CL' : CLOSED (vf s')) by (eapply run_closed; eauto).
+    exists s', (false :: bits), inits. split; auto. split; auto. split; auto. split; auto. split; auto. split.
+    { intros i [X|X] Hi Di.
+      + subst i. pose proof (i_base _ _ I') as B'.
+        rewrite <- F1. apply (FANC (vf s') yy cc); auto.
+        * intros x Hx Hvis. apply (b_vis _ _ B' x Hx Hvis).
+        * unfold nondeg. rewrite F1. auto.
+        * rewrite <- (prev_face yy), <- F6. auto.
+      + apply M'. auto. }
+    rewrite Pc', app_length. cbn [s1 with_vhole with_vv pcc]. lia.
 Qed.
 
-Lemma ec_fold_ok l : Forall (fun c => c < 3 * nf) l -> forall st, ECinv st -> ECinv (fold_left (ec_corner c2v opp hid) l st).
+Lemma ec_fold_ok l : Forall (fun c => c < 3 * nf) l -> forall done st, ECinv done st ->
+  ECinv (rev l ++ done) (fold_left (ec_corner c2v opp hid) l st).
 Proof.
-  induction 1; intros st I; simpl; auto. apply IHForall. apply ec_corner_ok; auto.
+  induction 1; intros done st I; simpl; auto. rewrite <- app_assoc. simpl. apply IHForall. apply ec_corner_ok; auto.
 Qed.
 
 Lemma nth_repeat_false k i : nth i (repeat false k) false = false.
@@ -654,8 +1054,10 @@ Qed.
 Definition out_ok (o : enc_out) : Prop :=
   NoDup (map (fun c => c / 3) (o_pcc o)) /\
   Forall (fun c => c < 3 * nf /\ is_degenerated c2v (c / 3) = false) (o_pcc o) /\
+  (forall f, f < nf -> is_degenerated c2v f = false -> In f (map (fun c => c / 3) (o_pcc o))) /\
   o_nsyms o = Z.of_nat (length (o_syms o)) /\
   length (o_pcc o) = length (o_syms o) + count_occ bool_dec (o_bits o) true /\
+  3 * count_occ bool_dec (o_bits o) true <= length (o_syms o) /\
   o_nsplit o = Z.of_nat (count_occ Z.eq_dec (o_syms o) TOPOLOGY_S) /\
   Forall (fun x => In x [0; 1; 3; 5; 7]%Z) (o_syms o) /\
   Forall (fun e => match e with (src, spl, ed) => (0 <= spl < src)%Z /\ (src < o_nsyms o)%Z /\ (ed = 0 \/ ed = 1)%Z end) (o_events o) /\
@@ -668,9 +1070,11 @@ Theorem encode_from_holes vh niso ndeg : length vh = nh -> nf <> ndeg ->
 Proof.
   intros Lh Nd FH. unfold eb_encode. rewrite NF_eq. apply Nat.eqb_neq in Nd. rewrite Nd. rewrite FH. cbn [ebind].
   rewrite NC_eq.
-  destruct (ec_fold_ok (seq 0 (3 * nf))) with (st := EOk (init_est nf nv vh, @nil bool, @nil nat)) as (s & bits & inits & E & I & Fi & Cb).
+  destruct (ec_fold_ok (seq 0 (3 * nf))) with (done := @nil nat) (st := EOk (init_est nf nv vh, @nil bool, @nil nat))
+    as (s & bits & inits & E & I & Fi & Cb & CL & DN & T3).
   - apply Forall_forall. intros x Hx. apply in_seq in Hx. lia.
-  - exists (init_est nf nv vh), [], []. split; auto. split. apply init_Inv; auto. split; auto.
+  - exists (init_est nf nv vh), [], []. split; auto. split. apply init_Inv; auto. split; auto. split; auto.
+    split; [|split; [intros i []|simpl; lia]]. intros x y (_ & Vx & _). cbn [init_est vf] in Vx. rewrite nth_repeat_false in Vx. discriminate.
   - rewrite E. cbn [ebind]. eexists. split; [reflexivity|]. split; [|split; reflexivity].
     destruct I as [B A1 A2 A3]. destruct B.
     unfold out_ok. cbn [o_pcc o_nsyms o_syms o_bits o_nsplit o_events].
@@ -685,7 +1089,13 @@ Proof.
       { apply in_app_or in Hc. destruct Hc as [Hc|Hc]. rewrite Forall_forall in b_pcc0; auto.
         apply in_rev in Hc. rewrite Forall_forall in Fi; auto. }
       split; auto. apply (b_vis0 c Hlt H2). }
+    split.
+    { intros f Hf Df. rewrite map_app. apply b_in0. split; auto.
+      replace f with ((3 * f) / 3) by (rewrite Nat.mul_comm; apply Nat.div_mul; lia).
+      apply DN; try lia. apply in_or_app. left. apply -> in_rev. apply in_seq. lia.
+      replace ((3 * f) / 3) with f by (symmetry; rewrite Nat.mul_comm; apply Nat.div_mul; lia). auto. }
     split; auto. split. { rewrite app_length, rev_length. lia. }
+    split. { rewrite <- Cb. lia. }
     split. { rewrite b_split0. auto. }
     split. { apply Forall_rev. auto. }
     split. { apply Forall_rev. eapply Forall_impl; [|exact b_evs0]. intros [[a b] d]. lia. }
@@ -951,29 +1361,57 @@ Hypothesis HHI : HI hid vh.
 
 Lemma find_init_ok f : f < nf -> is_degenerated c2v f = false ->
   exists start interior, find_init c2v opp hid f = EOk (start, interior) /\ start < 3 * nf /\
-    (interior = true -> start / 3 = f) /\
-    (interior = false -> is_degenerated c2v (start / 3) = false /\ opp_at opp start = None).
+    (interior = true -> start / 3 = f /\
+       forall x, x < 3 * nf -> x / 3 = f -> opp_at opp x <> None /\ nth (vtx c2v x) hid None = None) /\
+    (interior = false -> is_degenerated c2v (start / 3) = false /\ opp_at opp start = None /\
+       exists c y, c / 3 = f /\ c < 3 * nf /\ y < 3 * nf /\ vtx c2v c = vtx c2v y /\
+                   is_degenerated c2v (y / 3) = false /\ start = prev_c y).
 Proof.
   intros Hf Hd. unfold find_init.
   assert (G : forall k c, c < 3 * nf -> c / 3 = f ->
      exists start interior, fi_loop c2v opp hid k c = EOk (start, interior) /\ start < 3 * nf /\
-       (interior = true -> start / 3 = f) /\
-       (interior = false -> is_degenerated c2v (start / 3) = false /\ opp_at opp start = None)).
+       (interior = true -> start = Nat.iter k next_c c /\
+          forall i, i < k -> opp_at opp (Nat.iter i next_c c) <> None /\ nth (vtx c2v (Nat.iter i next_c c)) hid None = None) /\
+       (interior = false -> is_degenerated c2v (start / 3) = false /\ opp_at opp start = None /\
+          exists c y, c / 3 = f /\ c < 3 * nf /\ y < 3 * nf /\ vtx c2v c = vtx c2v y /\
+                      is_degenerated c2v (y / 3) = false /\ start = prev_c y)).
   { induction k; intros c Hc Hcf.
-    - exists c, true. cbn [fi_loop]. repeat split; auto; discriminate.
+    - exists c, true. cbn [fi_loop]. split; auto. split; auto. split; [|discriminate]. intros _. split; auto. intros i Hi. lia.
     - cbn [fi_loop]. rewrite (e_opp_ok c2v opp nf Hlen OK c Hc). cbn [ebind].
       destruct (opp_at opp c) as [o|] eqn:Eo.
-      2:{ exists c, false. repeat split; auto; try discriminate. rewrite Hcf; auto. }
+      2:{ exists c, false. split; auto. split; auto. split; [discriminate|]. intros _. split; [rewrite Hcf; auto|]. split; auto.
+          exists (next_c c), (next_c c). rewrite next_face, prev_next. repeat split; auto. apply next_lt; auto. apply next_lt; auto. rewrite Hcf; auto. }
       rewrite (e_vertex_ok c2v nf Hlen c Hc). cbn [ebind].
       rewrite (eget_lt hid _ None) by (destruct HHI as (L & _); rewrite L; apply Hv; auto). cbn [ebind].
       destruct (nth (vtx c2v c) hid None) as [h|] eqn:Eh.
       + destruct (fi_swing_ok c Hc) as (y & E & R & S1 & L).
         { apply (open_fan hid vh); auto. rewrite Hcf; auto. congruence. }
         rewrite E. cbn [ebind]. exists (prev_c y), false. split; auto. split; [apply prev_lt; auto|].
-        split; [discriminate|]. intros _. split; [|apply sr_none_opp; auto].
-        rewrite prev_face. apply (reach_same _ _ R). rewrite Hcf; auto.
-      + apply IHk. apply next_lt; auto. rewrite next_face; auto. }
-  apply G. lia. rewrite Nat.mul_comm. apply Nat.div_mul. lia.
+        split; [discriminate|]. intros _. destruct (reach_same _ _ R) as [Vy Dy]. specialize (Dy ltac:(rewrite Hcf; auto)).
+        split; [rewrite prev_face; auto|]. split; [apply sr_none_opp; auto|].
+        exists c, y. repeat split; auto.
+      + destruct (IHk (next_c c)) as (st & it & E & L & A & B).
+        * apply next_lt; auto.
+        * rewrite next_face; auto.
+        * assert (Sh : forall m x, Nat.iter (S m) next_c x = Nat.iter m next_c (next_c x)).
+          { clear. induction m; intros; simpl; auto. simpl in IHm. rewrite IHm. auto. }
+          exists st, it. split; auto. split; auto. split; auto. intros X. destruct (A X) as [A1 A2]. split.
+          -- rewrite Sh. auto.
+          -- intros i Hi. destruct i. simpl. split; congruence.
+             rewrite Sh. apply A2. lia. }
+  destruct (G 3 (3 * f)) as (st & it & E & L & A & B).
+  - lia.
+  - rewrite Nat.mul_comm. apply Nat.div_mul. lia.
+  - exists st, it. split; auto. split; auto. split; auto. intros X. destruct (A X) as [A1 A2].
+    assert (S3 : st = 3 * f).
+    { rewrite A1. change (Nat.iter 3 next_c (3 * f)) with (next_c (next_c (next_c (3 * f)))). rewrite next_0, next_1, next_2. auto. }
+    clear A1. subst st. split; [replace (3 * f) with (f * 3) by lia; apply Nat.div_mul; lia|].
+    destruct (A2 0 ltac:(lia)) as [P0 Q0]. destruct (A2 1 ltac:(lia)) as [P1 Q1]. destruct (A2 2 ltac:(lia)) as [P2 Q2].
+    change (Nat.iter 0 next_c (3 * f)) with (3 * f) in *.
+    change (Nat.iter 1 next_c (3 * f)) with (next_c (3 * f)) in *.
+    change (Nat.iter 2 next_c (3 * f)) with (next_c (next_c (3 * f))) in *.
+    rewrite next_0 in *. rewrite next_1 in *.
+    intros x Hx Fx. destruct (corner_cases x) as [Y|[Y|Y]]; rewrite Fx in Y; rewrite Y; auto.
 Qed.
 
 (* ---- the boundary walk of EncodeHole *)
@@ -1084,6 +1522,333 @@ Proof.
 Qed.
 End Holes.
 
+(** * Walks in a closed orbit of a partial injection with inverse *)
+Section Cyc.
+Variables (f g : nat -> option nat) (n : nat) (P : nat -> Prop).
+Hypothesis Hfg : forall a b, f a = Some b -> g b = Some a.
+Hypothesis Hgf : forall a b, g a = Some b -> f b = Some a.
+Hypothesis Hrng : forall a b, f a = Some b -> b < n.
+Hypothesis Pf : forall a, P a -> exists b, f a = Some b /\ P b.
+Hypothesis Pg : forall a, P a -> exists b, g a = Some b /\ P b.
+Hypothesis Plt : forall a, P a -> a < n.
+
+Lemma cyc_inj a a' b : f a = Some b -> f a' = Some b -> a = a'.
+Proof. intros H1 H2. apply Hfg in H1, H2. congruence. Qed.
+
+Lemma cyc_all a i : P a -> exists b, oiter f i (Some a) = Some b /\ P b.
+Proof.
+  intros Pa. induction i. exists a; auto. destruct IHi as (b & E & Pb). destruct (Pf b Pb) as (b' & E' & Pb').
+  exists b'. cbn [oiter]. rewrite E. auto.
+Qed.
+
+Lemma cyc_period a : P a -> exists p, 1 <= p /\ oiter f p (Some a) = Some a.
+Proof.
+  intros Pa.
+  assert (G : forall fuel k, running f a k -> n < fuel + k -> exists p, 1 <= p /\ oiter f p (Some a) = Some a).
+  { induction fuel; intros k R F.
+    - pose proof (running_bound f n Hrng cyc_inj a k (Plt a Pa) R). lia.
+    - destruct (cyc_all a k Pa) as (cur & E & Pc). destruct (Pf cur Pc) as (nx & E' & Pn).
+      destruct (Nat.eq_dec nx a).
+      + subst nx. exists (S k). split; [lia|]. cbn [oiter]. rewrite E. auto.
+      + apply (IHfuel (S k)); [|lia]. apply (running_S f n Hrng cyc_inj a k cur nx R E E' n0). }
+  apply (G (S n) 0); [apply (running_0 f n Hrng cyc_inj)|lia].
+Qed.
+
+Lemma reach_trans (h : nat -> option nat) a b c : reach h a b -> reach h b c -> reach h a c.
+Proof. intros [k E] [k' E']. exists (k + k'). rewrite oiter_add, E. auto. Qed.
+
+Lemma cyc_back a z : P a -> g a = Some z -> reach f a z.
+Proof.
+  intros Pa Ez. destruct (cyc_period a Pa) as (p & Hp & E). destruct p; [lia|].
+  cbn [oiter] in E. destruct (oiter f p (Some a)) as [w|] eqn:Ew; [|discriminate].
+  pose proof (Hgf _ _ Ez) as Fz. assert (w = z) by (eapply cyc_inj; eauto). subst w. exists p. auto.
+Qed.
+
+Lemma cyc_reach a z : P a -> reach g a z -> reach f a z.
+Proof.
+  intros Pa [k E]. revert z E. induction k; intros z E.
+  - simpl in E. inversion E; subst. exists 0. auto.
+  - cbn [oiter] in E. destruct (oiter g k (Some a)) as [y|] eqn:Ey; [|discriminate].
+    eapply reach_trans; [apply IHk; reflexivity|].
+    assert (Py : P y).
+    { clear -Ey Pa Pg. revert y Ey. induction k; intros y Ey. simpl in Ey. inversion Ey; subst; auto.
+      cbn [oiter] in Ey. destruct (oiter g k (Some a)) as [w|] eqn:Ew; [|discriminate].
+      destruct (Pg w (IHk w eq_refl)) as (b & Eb & Pb). congruence. }
+    apply cyc_back; auto.
+Qed.
+
+(* along a walk from a visited corner to an unvisited one: the last visited corner before the first unvisited one *)
+Lemma first_unvisited (vis : nat -> bool) a z : reach f a z -> vis a = true -> vis z = false ->
+  exists a' b, reach f a a' /\ vis a' = true /\ f a' = Some b /\ vis b = false.
+Proof.
+  intros [k E]. revert z E. induction k; intros z E Va Vz.
+  - simpl in E. inversion E; subst. congruence.
+  - cbn [oiter] in E. destruct (oiter f k (Some a)) as [y|] eqn:Ey; [|discriminate].
+    destruct (vis y) eqn:Vy.
+    + exists y, z. split; [exists k; auto|auto].
+    + apply (IHk y); auto.
+Qed.
+End Cyc.
+
+Section Closure.
+Variables (c2v : list nat) (opp : list (option nat)) (nf : nat) (hid : list (option nat)).
+Hypothesis Hlen : length c2v = 3 * nf.
+Hypothesis OK : opp_ok c2v opp.
+Hypothesis FAN : forall c c', c < 3 * nf -> c' < 3 * nf -> is_degenerated c2v (c / 3) = false ->
+  is_degenerated c2v (c' / 3) = false -> vtx c2v c = vtx c2v c' ->
+  reach (swing_right opp) c c' \/ reach (swing_right opp) c' c.
+Hypothesis Hhb : forall j, j < 3 * nf -> is_degenerated c2v (j / 3) = false -> opp_at opp j = None ->
+  nth (vtx c2v (next_c j)) hid None <> None /\ nth (vtx c2v (prev_c j)) hid None <> None.
+Let sl := swing_left opp.
+Let sr := swing_right opp.
+Let nd (c : nat) := is_degenerated c2v (c / 3) = false.
+
+(** ** `visited` propagates around a vertex when no visited face has an unvisited neighbour *)
+Lemma closed_sr vfl x x' : CLOSED opp nf vfl -> x < 3 * nf -> sr x = Some x' ->
+  (nth (x / 3) vfl false = true <-> nth (x' / 3) vfl false = true).
+Proof.
+  intros CL Hx E. unfold sr, swing_right in E. destruct (opp_at opp (prev_c x)) as [o|] eqn:Eo; [|discriminate].
+  inversion E; subst x'. destruct (opp_facts c2v opp nf Hlen OK _ _ Eo) as (Eo' & L1 & L2 & _).
+  rewrite prev_face. split; intros Hvis.
+  - destruct (nth (o / 3) vfl false) eqn:Q; auto. exfalso. apply (CL (prev_c x) o). repeat split; auto. rewrite prev_face; auto.
+  - destruct (nth (x / 3) vfl false) eqn:Q; auto. exfalso. apply (CL o (prev_c x)). repeat split; auto. rewrite prev_face; auto.
+Qed.
+
+Lemma closed_reach vfl a b : CLOSED opp nf vfl -> a < 3 * nf -> reach sr a b ->
+  (nth (a / 3) vfl false = true <-> nth (b / 3) vfl false = true).
+Proof.
+  intros CL Ha [k E]. revert b E. induction k; intros b E.
+  - simpl in E. inversion E; subst. tauto.
+  - cbn [oiter] in E. destruct (oiter sr k (Some a)) as [y|] eqn:Ey; [|discriminate].
+    rewrite (IHk y eq_refl). apply closed_sr; auto.
+    destruct k. simpl in Ey. inversion Ey; subst; auto.
+    cbn [oiter] in Ey. destruct (oiter sr k (Some a)); [|discriminate]. apply (sr_rng c2v opp nf Hlen OK) in Ey. lia.
+Qed.
+
+Theorem fan_closed vfl a b : CLOSED opp nf vfl -> a < 3 * nf -> b < 3 * nf -> nd a -> nd b -> vtx c2v a = vtx c2v b ->
+  nth (a / 3) vfl false = true -> nth (b / 3) vfl false = true.
+Proof.
+  intros CL Ha Hb Da Db Ev Hvis. destruct (FAN a b Ha Hb Da Db Ev) as [R|R].
+  - apply (closed_reach vfl a b CL Ha R). auto.
+  - apply (closed_reach vfl b a CL Hb R). auto.
+Qed.
+
+(** ** the fan of a vertex that is not on a boundary is a closed cycle *)
+Definition PV (t : nat) (a : nat) : Prop := a < 3 * nf /\ nd a /\ vtx c2v a = t.
+
+Lemma int_sl t a : nth t hid None = None -> PV t a -> exists b, sl a = Some b /\ PV t b.
+Proof.
+  intros Ht (Ha & Da & Va). unfold sl, swing_left. destruct (opp_at opp (next_c a)) as [o|] eqn:Eo.
+  - exists (next_c o). split; auto.
+    assert (S1 : swing_left opp a = Some (next_c o)) by (unfold swing_left; rewrite Eo; auto).
+    destruct (swing_left_ok c2v opp nf Hlen OK _ _ S1) as (L & V1 & D1 & _). repeat split; auto; [lia|congruence].
+  - exfalso. destruct (Hhb (next_c a)) as [_ X]; auto. apply next_lt; auto. unfold nd in Da. rewrite next_face; auto.
+    rewrite prev_next, Va in X. congruence.
+Qed.
+Lemma int_sr t a : nth t hid None = None -> PV t a -> exists b, sr a = Some b /\ PV t b.
+Proof.
+  intros Ht (Ha & Da & Va). unfold sr, swing_right. destruct (opp_at opp (prev_c a)) as [o|] eqn:Eo.
+  - exists (prev_c o). split; auto.
+    assert (S1 : swing_right opp a = Some (prev_c o)) by (unfold swing_right; rewrite Eo; auto).
+    destruct (swing_right_ok c2v opp nf Hlen OK _ _ S1) as (L & V1 & D1 & _). repeat split; auto; [lia|congruence].
+  - exfalso. destruct (Hhb (prev_c a)) as [X _]; auto. apply prev_lt; auto. unfold nd in Da. rewrite prev_face; auto.
+    rewrite next_prev, Va in X. congruence.
+Qed.
+
+Lemma sl_rng' a b : sl a = Some b -> b < 3 * nf.
+Proof. intros H. apply (sl_rng c2v opp nf Hlen OK) in H. lia. Qed.
+Lemma sr_rng' a b : sr a = Some b -> b < 3 * nf.
+Proof. intros H. apply (sr_rng c2v opp nf Hlen OK) in H. lia. Qed.
+
+Lemma sr_rev' k : forall a b, oiter sr k (Some a) = Some b -> oiter sl k (Some b) = Some a.
+Proof.
+  induction k; intros a b H. simpl in *. congruence.
+  cbn [oiter] in H. destruct (oiter sr k (Some a)) as [y|] eqn:E; [|discriminate].
+  pose proof (sr_sl c2v opp nf Hlen OK _ _ H) as S1.
+  replace (S k) with (1 + k) by lia. rewrite oiter_add. change (oiter sl 1 (Some b)) with (sl b). unfold sl at 2. rewrite S1. apply IHk. auto.
+Qed.
+Lemma fan_reach_sl t a z : nth t hid None = None -> PV t a -> PV t z -> reach sl a z.
+Proof.
+  intros Ht Pa Pz. destruct Pa as (Ha & Da & Va). destruct Pz as (Hz & Dz & Vz).
+  destruct (FAN a z Ha Hz Da Dz ltac:(congruence)) as [R|R].
+  - apply (cyc_reach sl sr (3 * nf) (PV t) (sl_sr c2v opp nf Hlen OK) (sr_sl c2v opp nf Hlen OK) sl_rng'
+             (fun x => int_sl t x Ht) (fun x => int_sr t x Ht) ltac:(intros x Px; apply Px)); auto. repeat split; auto.
+  - destruct R as [k E]. exists k. apply sr_rev'. auto.
+Qed.
+Lemma sl_rev k : forall a b, oiter sl k (Some a) = Some b -> oiter sr k (Some b) = Some a.
+Proof.
+  induction k; intros a b H. simpl in *. congruence.
+  cbn [oiter] in H. destruct (oiter sl k (Some a)) as [y|] eqn:E; [|discriminate].
+  pose proof (sl_sr c2v opp nf Hlen OK _ _ H) as S1.
+  replace (S k) with (1 + k) by lia. rewrite oiter_add. change (oiter sr 1 (Some b)) with (sr b). unfold sr at 2. rewrite S1. apply IHk. auto.
+Qed.
+Lemma fan_reach_sr t a z : nth t hid None = None -> PV t a -> PV t z -> reach sr a z.
+Proof.
+  intros Ht Pa Pz. destruct Pa as (Ha & Da & Va). destruct Pz as (Hz & Dz & Vz).
+  destruct (FAN a z Ha Hz Da Dz ltac:(congruence)) as [R|R]; auto.
+  apply (cyc_reach sr sl (3 * nf) (PV t) (sr_sl c2v opp nf Hlen OK) (sl_sr c2v opp nf Hlen OK) sr_rng'
+           (fun x => int_sr t x Ht) (fun x => int_sl t x Ht) ltac:(intros x Px; apply Px)); [repeat split; auto|].
+  destruct R as [k E]. exists k. apply sr_rev'. auto.
+Qed.
+
+Lemma reach_PV_sl t a b : nth t hid None = None -> PV t a -> reach sl a b -> PV t b.
+Proof.
+  intros Ht Pa [k E]. revert b E. induction k; intros b E. simpl in E. inversion E; subst; auto.
+  cbn [oiter] in E. destruct (oiter sl k (Some a)) as [y|] eqn:Ey; [|discriminate].
+  destruct (int_sl t y Ht (IHk y eq_refl)) as (b' & E' & Pb). fold sl in E. congruence.
+Qed.
+Lemma reach_PV_sr t a b : nth t hid None = None -> PV t a -> reach sr a b -> PV t b.
+Proof.
+  intros Ht Pa [k E]. revert b E. induction k; intros b E. simpl in E. inversion E; subst; auto.
+  cbn [oiter] in E. destruct (oiter sr k (Some a)) as [y|] eqn:Ey; [|discriminate].
+  destruct (int_sr t y Ht (IHk y eq_refl)) as (b' & E' & Pb). fold sr in E. congruence.
+Qed.
+
+Lemma same_face_vertex a b : a / 3 = b / 3 -> vtx c2v a = vtx c2v b -> nd b -> a = b.
+Proof.
+  intros F Ev D. destruct (nondeg_corner _ _ D) as (N1 & N2 & _).
+  destruct (face_corners _ _ F) as [X|[X|X]]; auto; subst a; congruence.
+Qed.
+
+Lemma NoDup_map_inj {A} (h : A -> nat) l a b : NoDup (map h l) -> In a l -> In b l -> h a = h b -> a = b.
+Proof.
+  induction l as [|x l IH]; simpl; intros N Ia Ib E; [tauto|]. inversion N; subst.
+  destruct Ia as [Ia|Ia], Ib as [Ib|Ib]; subst; auto.
+  - exfalso. apply H1. rewrite E. apply in_map. auto.
+  - exfalso. apply H1. rewrite <- E. apply in_map. auto.
+Qed.
+
+Section End_of_run.
+Variables (sf : option nat) (cl new : list nat) (vfl : list bool).
+Hypothesis RP : RunP c2v opp nf hid sf None cl new vfl [].
+Hypothesis ND : NoDup (map (fun c => c / 3) new).
+Hypothesis VN : forall x, x < 3 * nf -> nth (x / 3) vfl false = true -> nd x.
+Let vis (a : nat) : bool := nth (a / 3) vfl false.
+
+(* walking around the interior vertex t from a visited corner towards an unvisited one, to the left / to the right *)
+Lemma walk_l t p0 z : nth t hid None = None -> PV t p0 -> vis p0 = true -> PV t z -> vis z = false ->
+  exists a' o, PV t a' /\ vis a' = true /\ openc opp nf vfl (next_c a') o.
+Proof.
+  intros Ht P0 V0 Pz Vz.
+  destruct (first_unvisited sl vis p0 z (fan_reach_sl t p0 z Ht P0 Pz) V0 Vz) as (a' & b & R & Va & Sb & Vb).
+  pose proof (reach_PV_sl t p0 a' Ht P0 R) as Pa. exists a'.
+  unfold sl, swing_left in Sb. destruct (opp_at opp (next_c a')) as [o|] eqn:Eo; [|discriminate]. inversion Sb; subst b.
+  exists o. split; auto. split; auto. destruct Pa as (La & _). unfold vis in *. rewrite next_face in Vb.
+  repeat split; auto. apply next_lt; auto. rewrite next_face; auto.
+Qed.
+Lemma walk_r t p0 z : nth t hid None = None -> PV t p0 -> vis p0 = true -> PV t z -> vis z = false ->
+  exists a' o, PV t a' /\ vis a' = true /\ openc opp nf vfl (prev_c a') o.
+Proof.
+  intros Ht P0 V0 Pz Vz.
+  destruct (first_unvisited sr vis p0 z (fan_reach_sr t p0 z Ht P0 Pz) V0 Vz) as (a' & b & R & Va & Sb & Vb).
+  pose proof (reach_PV_sr t p0 a' Ht P0 R) as Pa. exists a'.
+  unfold sr, swing_right in Sb. destruct (opp_at opp (prev_c a')) as [o|] eqn:Eo; [|discriminate]. inversion Sb; subst b.
+  exists o. split; auto. split; auto. destruct Pa as (La & _). unfold vis in *. rewrite prev_face in Vb.
+  repeat split; auto. apply prev_lt; auto. rewrite prev_face; auto.
+Qed.
+
+Lemma def_end x y : openc opp nf vfl x y -> deferred sf cl x.
+Proof.
+  intros Op. destruct (r_def _ _ _ _ _ _ _ _ _ _ RP x y Op) as [X|[X|X]]; auto. discriminate X. destruct X.
+Qed.
+
+(* the left edge of a C face is never open at the end: take the LAST processed C face with an open left edge *)
+Lemma no_open_C : forall k l1 c' l2, new = l1 ++ c' :: l2 -> length l1 <= k -> In c' cl -> forall y, ~ openc opp nf vfl (prev_c c') y.
+Proof.
+  induction k as [k IH] using lt_wf_ind. intros l1 c' l2 En Lk Hin y Op.
+  destruct (r_cf _ _ _ _ _ _ _ _ _ _ RP c' Hin) as (Lc & Dc & Hc).
+  destruct Op as (Lx & Vx & Ox & Vy). rewrite prev_face in Vx.
+  destruct (opp_facts c2v opp nf Hlen OK _ _ Ox) as (_ & _ & Ly & _ & Dy & _ & V1 & _). rewrite next_prev in V1.
+  set (t := vtx c2v c') in *.
+  assert (Pz : PV t (prev_c y)). { split; [apply prev_lt; auto|]. split; [unfold nd; rewrite prev_face; auto|auto]. }
+  assert (P0 : PV t c') by (repeat split; auto).
+  destruct (walk_l t c' (prev_c y) Hc P0 Vx Pz ltac:(unfold vis; rewrite prev_face; auto)) as (a' & o & Pa & Va & Op2).
+  destruct Pa as (La & Da & Vta).
+  assert (FRa : In (a' / 3) (map (fun c => c / 3) (l1 ++ [c']))).
+  { apply (r_fr _ _ _ _ _ _ _ _ _ _ RP l1 c' l2 En Hin a'); auto. }
+  destruct (def_end _ _ Op2) as [(c'' & Hin2 & E2)|(ci & Es & E2)].
+  - assert (Ec : c'' = prev_c a'). { rewrite <- (next_prev c''), <- E2, next_next. auto. }
+    assert (Hn1 : In c' new) by (apply (r_cl _ _ _ _ _ _ _ _ _ _ RP); auto).
+    assert (Hn2 : In c'' new) by (apply (r_cl _ _ _ _ _ _ _ _ _ _ RP); auto).
+    rewrite map_app in FRa. apply in_app_or in FRa. destruct FRa as [F1|F1].
+    + (* a later C face: descend *)
+      assert (Hl1 : In c'' l1).
+      { rewrite En in Hn2. apply in_app_or in Hn2. destruct Hn2 as [X|X]; auto. exfalso.
+        rewrite En, map_app in ND. assert (Y : In (c'' / 3) (map (fun c => c / 3) (c' :: l2))) by (apply (in_map (fun c => c / 3)); auto).
+        rewrite Ec, prev_face in Y. clear -ND F1 Y. induction (map (fun c => c / 3) l1) as [|h r IHr]; simpl in *; [tauto|].
+        inversion ND; subst. destruct F1 as [F1|F1]; [subst; apply H1; apply in_or_app; auto|auto]. }
+      destruct (in_split _ _ Hl1) as (m1 & m2 & Em). subst l1.
+      apply (IH (length m1)) with (l1 := m1) (c' := c'') (l2 := m2 ++ c' :: l2) (y := o); auto.
+      * rewrite app_length in Lk. simpl in Lk. lia.
+      * rewrite En, <- app_assoc. auto.
+      * rewrite <- E2. auto.
+    + simpl in F1. destruct F1 as [F1|[]].
+      assert (Hcc : c'' = c'). { apply (NoDup_map_inj (fun c => c / 3) new); auto. rewrite Ec, prev_face. auto. }
+      rewrite Hcc in Ec. destruct (nondeg_corner _ _ Da) as (_ & N2 & _). rewrite <- Ec in N2. unfold t in Vta. congruence.
+  - (* the interior start face does not contain a fresh vertex *)
+    apply (r_sfn _ _ _ _ _ _ _ _ _ _ RP ci Es).
+    assert (F : a' / 3 = ci / 3). { destruct E2 as [E2|E2]; rewrite <- (next_face a'), E2; rewrite ?prev_face; auto. }
+    rewrite <- F. rewrite En. rewrite map_app in *. apply in_app_or in FRa. apply in_or_app. destruct FRa as [X|X]; auto.
+    right. simpl in *. destruct X as [X|[]]; auto.
+Qed.
+
+Lemma no_open_C' c' y : In c' cl -> ~ openc opp nf vfl (prev_c c') y.
+Proof.
+  intros Hin. assert (Hn : In c' new) by (apply (r_cl _ _ _ _ _ _ _ _ _ _ RP); auto).
+  destruct (in_split _ _ Hn) as (l1 & l2 & E). apply (no_open_C (length l1) l1 c' l2); auto.
+Qed.
+
+Theorem run_end : CLOSED opp nf vfl.
+Proof.
+  intros x y Op. destruct (def_end _ _ Op) as [(c' & Hin & E)|(ci & Es & E)].
+  - subst x. apply (no_open_C' c' y Hin Op).
+  - destruct (r_sf _ _ _ _ _ _ _ _ _ _ RP ci Es) as (Lc & Dc & Vc & H1 & H2).
+    destruct Op as (Lx & Vx & Ox & Vy).
+    destruct (opp_facts c2v opp nf Hlen OK _ _ Ox) as (_ & _ & Ly & _ & Dy & _ & V1 & V2).
+    assert (Bad : forall a', a' / 3 = ci / 3 -> forall o, (openc opp nf vfl (next_c a') o -> a' = ci -> False) /\
+                                                          (openc opp nf vfl (prev_c a') o -> a' = prev_c ci -> False)).
+    { intros a' F o. destruct (nondeg_corner _ _ Dc) as (N1 & N2 & N3). split; intros Op2 Ea; subst a'.
+      - destruct (def_end _ _ Op2) as [(c'' & Hin2 & E2)|(ci' & Es' & E2)].
+        + apply (no_open_C' c'' o Hin2). rewrite <- E2. auto.
+        + rewrite Es in Es'. inversion Es'; subst ci'. destruct E2 as [E2|E2].
+          * apply (next_neq ci). auto.
+          * apply N3. rewrite E2. auto.
+      - destruct (def_end _ _ Op2) as [(c'' & Hin2 & E2)|(ci' & Es' & E2)].
+        + apply (no_open_C' c'' o Hin2). rewrite <- E2. auto.
+        + rewrite Es in Es'. inversion Es'; subst ci'. rewrite prev_prev in E2. destruct E2 as [E2|E2].
+          * apply (next_neq ci). auto.
+          * apply N3. rewrite E2. auto. }
+    destruct E as [E|E]; subst x.
+    + (* gate edge of the start face: walk to the right around V(prev ci) *)
+      set (t := vtx c2v (prev_c ci)) in *.
+      assert (P0 : PV t (prev_c ci)). { split; [apply prev_lt; auto|]. split; [unfold nd; rewrite prev_face; auto|auto]. }
+      assert (Pz : PV t (next_c y)). { split; [apply next_lt; auto|]. split; [unfold nd; rewrite next_face; auto|auto]. }
+      destruct (walk_r t (prev_c ci) (next_c y) H2 P0 ltac:(unfold vis; rewrite prev_face; auto) Pz ltac:(unfold vis; rewrite next_face; auto))
+        as (a' & o & Pa & Va & Op2).
+      destruct Pa as (La & Da & Vta).
+      destruct (def_end _ _ Op2) as [(c'' & Hin2 & E2)|(ci' & Es' & E2)].
+      * apply (no_open_C' c'' o Hin2). rewrite <- E2. auto.
+      * rewrite Es in Es'. inversion Es'; subst ci'.
+        assert (F : a' / 3 = ci / 3). { destruct E2 as [E2|E2]; rewrite <- (prev_face a'), E2; rewrite ?prev_face; auto. }
+        assert (Ea : a' = prev_c ci). { apply same_face_vertex; auto. rewrite prev_face; auto. unfold nd. rewrite prev_face. auto. }
+        apply (proj2 (Bad a' F o) Op2 Ea).
+    + (* left edge of the start face: walk to the left around V(ci) *)
+      rewrite prev_face in Vx. rewrite next_prev in V1.
+      set (t := vtx c2v ci) in *.
+      assert (P0 : PV t ci) by (repeat split; auto).
+      assert (Pz : PV t (prev_c y)). { split; [apply prev_lt; auto|]. split; [unfold nd; rewrite prev_face; auto|auto]. }
+      destruct (walk_l t ci (prev_c y) H1 P0 Vx Pz ltac:(unfold vis; rewrite prev_face; auto)) as (a' & o & Pa & Va & Op2).
+      destruct Pa as (La & Da & Vta).
+      destruct (def_end _ _ Op2) as [(c'' & Hin2 & E2)|(ci' & Es' & E2)].
+      * apply (no_open_C' c'' o Hin2). rewrite <- E2. auto.
+      * rewrite Es in Es'. inversion Es'; subst ci'.
+        assert (F : a' / 3 = ci / 3). { destruct E2 as [E2|E2]; rewrite <- (next_face a'), E2; rewrite ?prev_face; auto. }
+        assert (Ea : a' = ci) by (apply same_face_vertex; auto).
+        apply (proj1 (Bad a' F o) Op2 Ea).
+Qed.
+End End_of_run.
+End Closure.
+
 (** * The encoder is total on every consistent table with one fan per vertex *)
 Definition one_fan (c2v : list nat) (opp : list (option nat)) : Prop :=
   forall c c', c < length c2v -> c' < length c2v -> is_degenerated c2v (c / 3) = false ->
@@ -1110,6 +1875,10 @@ Proof.
     + intros j Hj Dj Oj. apply B. split; auto.
     + intros s c first. apply (encode_hole_ok c2v opp nf nv Hlen OK Hv FAN' hid vh I).
     + intros f. apply (find_init_ok c2v opp nf nv Hlen OK Hv FAN' hid vh I).
+    + intros sf cl new vfl RP ND VN L. apply (run_end c2v opp nf hid Hlen OK FAN') with (sf := sf) (cl := cl) (new := new); auto.
+      intros j Hj Dj Oj. apply B. split; auto.
+    + intros vfl a b CL VN Ha Hb Da Db Ev Hvis. apply (fan_closed c2v opp nf hid Hlen OK FAN') with (a := a); auto.
+      intros j Hj Dj Oj. apply B. split; auto.
 Qed.
 
 (** * Every table built by CornerTable::Create (the C13 model) qualifies *)
@@ -1165,7 +1934,8 @@ Theorem eb_encode_ct_counts faces t o : ct_create faces = Some t -> eb_encode_ct
   o_nsyms o = Z.of_nat (length (o_syms o)) /\
   o_nsplit o = Z.of_nat (count_occ Z.eq_dec (o_syms o) TOPOLOGY_S) /\ (0 <= o_nsplit o <= o_nsyms o)%Z /\
   length (o_pcc o) = length (o_syms o) + count_occ bool_dec (o_bits o) true /\
-  (Z.of_nat (length (o_pcc o)) <= o_nfaces o)%Z /\
+  3 * count_occ bool_dec (o_bits o) true <= length (o_syms o) /\
+  Z.of_nat (length (o_pcc o)) = o_nfaces o /\
   o_nverts o = (Z.of_nat (length (ct_vcorn t)) - Z.of_nat (ct_niso t))%Z /\
   o_nfaces o = (Z.of_nat (length faces) - Z.of_nat (ct_ndeg t))%Z /\
   Forall (fun x => In x [0; 1; 3; 5; 7]%Z) (o_syms o) /\
@@ -1174,7 +1944,7 @@ Theorem eb_encode_ct_counts faces t o : ct_create faces = Some t -> eb_encode_ct
 Proof.
   intros H E. destruct (eb_encode_ct_total _ _ H) as [T1 T2].
   destruct (Nat.eq_dec (length faces) (ct_ndeg t)) as [X|X]. { rewrite (T1 X) in E. discriminate. }
-  destruct (T2 X) as (o' & E' & (O1 & O2 & O3 & O4 & O5 & O6 & O7 & O8) & V1 & V2). rewrite E in E'. inversion E'; subst o'. clear E'.
+  destruct (T2 X) as (o' & E' & (O1 & O2 & OC & O3 & O4 & O4b & O5 & O6 & O7 & O8) & V1 & V2). rewrite E in E'. inversion E'; subst o'. clear E'.
   pose proof (count_occ_bound Z.eq_dec TOPOLOGY_S (o_syms o)) as Cb.
   repeat split; auto; try lia.
   (* |pcc| <= number of non-degenerated faces *)
@@ -1186,6 +1956,11 @@ Proof.
     unfold nd. apply filter_In. split. apply in_seq. split; [lia|]. rewrite Nat.add_0_l. apply Nat.div_lt_upper_bound; lia.
     rewrite <- Dg, D. auto. }
   pose proof (NoDup_incl_length O1 Incl) as Le. rewrite map_length in Le.
+  assert (Incl2 : incl nd (map (fun c => c / 3) (o_pcc o))).
+  { intros f Hf. unfold nd in Hf. apply filter_In in Hf. destruct Hf as [Hs Hd]. apply in_seq in Hs. apply negb_true_iff in Hd.
+    apply OC; [lia|]. rewrite Dg. auto. }
+  assert (NDn : NoDup nd) by (unfold nd; apply NoDup_filter; apply seq_NoDup).
+  pose proof (NoDup_incl_length NDn Incl2) as Ge. rewrite map_length in Ge.
   pose proof (filter_split_length (is_degenerated (c2v_of_faces faces)) (seq 0 (length faces))) as Sp.
   rewrite seq_length in Sp. fold nd in Sp. rewrite V2. lia.
 Qed.
@@ -1256,4 +2031,173 @@ Proof.
   split.
   - assert (nth_error P (length P) = None) by (apply nth_error_None; lia). rewrite H. auto.
   - f_equal. clear -F. induction F; simpl; auto. apply Z.ltb_lt in H. rewrite H. f_equal. auto.
+Qed.
+
+(** * The counts the encoder declares and the decoder's guards *)
+Fixpoint osomes {A} (l : list (option A)) : list A :=
+  match l with [] => [] | Some x :: r => x :: osomes r | None :: r => osomes r end.
+
+Lemma osomes_length {A} (l : list (option A)) :
+  length (osomes l) + length (filter (fun o => match o with None => true | Some _ => false end) l) = length l.
+Proof. induction l as [|[x|] l IH]; simpl; lia. Qed.
+
+Lemma osomes_nodup (g : nat -> nat) : forall (l : list (option nat)) off,
+  (forall i x, nth i l None = Some x -> g x = off + i) ->
+  NoDup (map g (osomes l)) /\ Forall (fun y => off <= y) (map g (osomes l)).
+Proof.
+  induction l as [|a l IH]; intros off H; simpl. split; constructor.
+  destruct (IH (S off)) as [N F]. { intros i x E. rewrite (H (S i) x E). lia. }
+  destruct a as [x|]; simpl.
+  - pose proof (H 0 x eq_refl) as G0. split.
+    + constructor; auto. intro X. rewrite Forall_forall in F. specialize (F _ X). lia.
+    + constructor. lia. eapply Forall_impl; [|exact F]. simpl. intros; lia.
+  - split; auto. eapply Forall_impl; [|exact F]. simpl. intros; lia.
+Qed.
+
+Lemma osomes_in {A} (l : list (option A)) x : In x (osomes l) -> exists i, nth_error l i = Some (Some x).
+Proof.
+  induction l as [|[y|] l IH]; simpl; intros H; [tauto| |].
+  - destruct H as [H|H]. subst. exists 0. auto. destruct (IH H) as (i & E). exists (S i). auto.
+  - destruct (IH H) as (i & E). exists (S i). auto.
+Qed.
+
+Lemma nondeg_corners_length c2v nf :
+  length (filter (fun c => negb (is_degenerated c2v (c / 3))) (seq 0 (3 * nf))) =
+  3 * length (filter (fun f => negb (is_degenerated c2v f)) (seq 0 nf)).
+Proof.
+  induction nf as [|k IH]. reflexivity.
+  assert (E3 : 3 * S k = 3 * k + 3) by lia. rewrite E3.
+  rewrite seq_app, filter_app, app_length, IH.
+  assert (Es : seq (0 + 3 * k) 3 = [3 * k; 3 * k + 1; 3 * k + 2]).
+  { simpl. repeat f_equal; lia. }
+  rewrite Es. rewrite (seq_S k 0), filter_app, app_length. cbn [filter seq].
+  assert (D0 : 3 * k / 3 = k) by (rewrite Nat.mul_comm; apply Nat.div_mul; lia).
+  assert (D1 : (3 * k + 1) / 3 = k) by (symmetry; apply Nat.div_unique with 1; lia).
+  assert (D2 : (3 * k + 2) / 3 = k) by (symmetry; apply Nat.div_unique with 2; lia).
+  rewrite D0, D1, D2. simpl Nat.add.
+  destruct (is_degenerated c2v k); simpl; lia.
+Qed.
+
+(** G2: at most three encoded vertices per encoded face *)
+Lemma ct_vertices_le_corners faces t : ct_create faces = Some t ->
+  length (ct_vcorn t) - ct_niso t <= 3 * (length faces - ct_ndeg t).
+Proof.
+  intros H. destruct (counters _ _ H) as (_ & _ & _ & Nd & Ni).
+  destruct (single_fan _ _ H) as [_ F2]. destruct (ct_create_wf _ _ H) as (_ & _ & _ & _ & Dg).
+  pose proof (osomes_length (ct_vcorn t)) as L1. rewrite <- Ni in L1.
+  set (V := vtx (ct_c2v t)).
+  destruct (osomes_nodup V (ct_vcorn t) 0) as [N _].
+  { intros i x E. destruct (F2 i x E) as (Vx & _). simpl. auto. }
+  apply NoDup_map_inv in N.
+  set (ndc := filter (fun c => negb (is_degenerated (c2v_of_faces faces) (c / 3))) (seq 0 (3 * length faces))).
+  assert (Incl : incl (osomes (ct_vcorn t)) ndc).
+  { intros l Hl. destruct (osomes_in _ _ Hl) as (i & E). apply nth_error_nth with (d := None) in E.
+    destruct (F2 i l E) as (_ & Ll & Dl & _). unfold ndc. apply filter_In. split. apply in_seq. lia. rewrite Dl. auto. }
+  pose proof (NoDup_incl_length N Incl) as Le. unfold ndc in Le. rewrite nondeg_corners_length in Le.
+  pose proof (filter_split_length (is_degenerated (c2v_of_faces faces)) (seq 0 (length faces))) as Sp.
+  rewrite seq_length in Sp. lia.
+Qed.
+
+Local Open Scope Z_scope.
+
+Lemma to_i32_small x : 0 <= x < 2147483648 -> Edgebreaker.to_i32 x = x.
+Proof.
+  intros H. unfold Edgebreaker.to_i32. rewrite Z.mod_small by lia. destruct (x <? 2147483648) eqn:E; auto. apply Z.ltb_ge in E. lia.
+Qed.
+
+(** The guards of DecodeConnectivity() never reject what the encoder declares.  Two premises are NOT derived here:
+    [Hsimple] (the vertex/edge graph of the table is simple: a property of BreakNonManifoldEdges outside C13's theorems)
+    and [Hevents] (at most one topology split event per face); both are checked on every generated mesh by the harness. *)
+Theorem eb_encode_ct_guards faces t o rm : ct_create faces = Some t -> eb_encode_ct t = EOk o ->
+  Z.of_nat (3 * length faces + length (ct_vcorn t)) < 2147483648 ->
+  (3 * o_nfaces o) / 2 <= (o_nverts o * (o_nverts o - 1)) / 2 ->
+  Z.of_nat (length (o_events o)) <= o_nfaces o ->
+  eb_decode_of o rm =
+    Edgebreaker.eb_core (3 * o_nfaces o) (o_nverts o + o_nsplit o) (o_nfaces o) rm (rev (o_syms o)) (o_events o)
+                        (Edgebreaker.bits_of_list (o_bits o)) /\
+  0 <= o_nverts o <= 3 * o_nfaces o /\ o_nsyms o <= o_nfaces o <= o_nsyms o + o_nsyms o / 3 /\
+  0 <= o_nsplit o <= o_nsyms o /\ 0 <= o_nverts o + o_nsplit o < 2147483648 /\ 0 <= o_nfaces o <= 1431655765.
+Proof.
+  intros H E Hsz Hsimple Hevents.
+  destruct (eb_encode_ct_counts _ _ _ H E) as (C1 & C2 & C3 & C4 & C4b & C5 & C6 & C7 & _).
+  pose proof (ct_vertices_le_corners _ _ H) as G2.
+  destruct (counters _ _ H) as (_ & _ & _ & Nd & Ni).
+  assert (Hnd : (ct_ndeg t <= length faces)%nat).
+  { rewrite Nd. pose proof (filter_split_length (is_degenerated (c2v_of_faces faces)) (seq 0 (length faces))) as Sp.
+    rewrite seq_length in Sp. lia. }
+  assert (Hni : (ct_niso t <= length (ct_vcorn t))%nat).
+  { rewrite Ni. pose proof (osomes_length (ct_vcorn t)). lia. }
+  set (nf' := o_nfaces o) in *. set (nev := o_nverts o) in *. set (ns := o_nsyms o) in *. set (nsp := o_nsplit o) in *.
+  assert (A1 : 0 <= nev <= 3 * nf') by lia.
+  assert (A2 : ns <= nf' <= ns + ns / 3).
+  { split; [lia|]. assert (3 * (nf' - ns) <= ns) by lia. Z.div_mod_to_equations. lia. }
+  assert (A3 : 0 <= nev + nsp < 2147483648) by lia.
+  assert (A4 : 0 <= nf' <= 1431655765) by lia.
+  split; [|repeat split; lia].
+  unfold eb_decode_of, Edgebreaker.eb_full. fold nf' nev ns nsp.
+  rewrite rev_length. rewrite <- C1. fold ns.
+  replace (nf' >? 1431655765) with false by (symmetry; rewrite Z.gtb_ltb; apply Z.ltb_ge; lia).
+  replace (nev >? nf' * 3) with false by (symmetry; rewrite Z.gtb_ltb; apply Z.ltb_ge; lia).
+  rewrite (to_i32_small nev) by lia.
+  rewrite (Z.mod_small nev) by lia.
+  rewrite (Z.mod_small (nev * (nev - 1))) by nia.
+  replace (nev * (nev - 1) / 2 <? 3 * nf' / 2) with false by (symmetry; apply Z.ltb_ge; lia).
+  replace (nf' <? ns) with false by (symmetry; apply Z.ltb_ge; lia).
+  replace (nf' >? ns + ns / 3) with false by (symmetry; rewrite Z.gtb_ltb; apply Z.ltb_ge; lia).
+  replace (nsp >? ns) with false by (symmetry; rewrite Z.gtb_ltb; apply Z.ltb_ge; lia).
+  rewrite (Z.mod_small (nev + nsp)) by lia.
+  rewrite (to_i32_small (nev + nsp)) by lia.
+  replace (nev + nsp <? 0) with false by (symmetry; apply Z.ltb_ge; lia).
+  replace (Z.of_nat (length (o_events o)) >? nf') with false by (symmetry; rewrite Z.gtb_ltb; apply Z.ltb_ge; lia).
+  reflexivity.
+Qed.
+
+(** the same guards as the serialisation layer states them (Model/EbTraversal.v: [conn_guards] = the premise
+    hdr_plausible of Properties_TRAV), the header fields in range, and the event premises ev_ok / G8 *)
+
+Lemma trav_to_i32_small x : 0 <= x < 2147483648 -> EbTraversal.to_i32 x = x.
+Proof.
+  intros H. unfold EbTraversal.to_i32. cbv zeta. rewrite Z.mod_small by lia.
+  destruct (x <? 2 ^ 31) eqn:E; auto. apply Z.ltb_ge in E. lia.
+Qed.
+
+Theorem eb_encode_ct_trav_premises faces t o : ct_create faces = Some t -> eb_encode_ct t = EOk o ->
+  Z.of_nat (3 * length faces + length (ct_vcorn t)) < 2147483648 ->
+  (3 * o_nfaces o) / 2 <= (o_nverts o * (o_nverts o - 1)) / 2 ->
+  EbTraversal.conn_guards (o_nverts o) (o_nfaces o) (o_nsyms o) (o_nsplit o) = true /\
+  (0 <= o_nverts o < 2 ^ 32 /\ 0 <= o_nfaces o < 2 ^ 32 /\ 0 <= o_nsyms o < 2 ^ 32 /\ 0 <= o_nsplit o < 2 ^ 32) /\
+  Forall (fun e => match e with (src, spl, ed) => 0 <= spl <= src /\ src < 2 ^ 32 /\ (ed = 0 \/ ed = 1) end) (o_events o) /\
+  Forall (fun x => In x [0; 1; 3; 5; 7]) (o_syms o).
+Proof.
+  intros H E Hsz Hsimple.
+  destruct (eb_encode_ct_counts _ _ _ H E) as (C1 & C2 & C3 & C4 & C4b & C5 & C6 & C7 & C8 & C9 & _).
+  pose proof (ct_vertices_le_corners _ _ H) as G2.
+  destruct (counters _ _ H) as (_ & _ & _ & Nd & Ni).
+  assert (Hnd : (ct_ndeg t <= length faces)%nat).
+  { rewrite Nd. pose proof (filter_split_length (is_degenerated (c2v_of_faces faces)) (seq 0 (length faces))) as Sp.
+    rewrite seq_length in Sp. lia. }
+  assert (Hni : (ct_niso t <= length (ct_vcorn t))%nat).
+  { rewrite Ni. pose proof (osomes_length (ct_vcorn t)). lia. }
+  set (nf' := o_nfaces o) in *. set (nev := o_nverts o) in *. set (ns := o_nsyms o) in *. set (nsp := o_nsplit o) in *.
+  assert (A1 : 0 <= nev <= 3 * nf') by lia.
+  assert (A2 : ns <= nf' <= ns + ns / 3).
+  { split; [lia|]. assert (3 * (nf' - ns) <= ns) by lia. Z.div_mod_to_equations. lia. }
+  assert (A3 : 0 <= nev + nsp < 2147483648) by lia.
+  assert (A4 : 0 <= nf' <= 1431655765) by lia.
+  assert (P32 : 2 ^ 32 = 4294967296) by reflexivity. assert (P64 : 2 ^ 64 = 18446744073709551616) by reflexivity.
+  split; [|split; [lia|split]].
+  - unfold EbTraversal.conn_guards. cbv zeta. rewrite (trav_to_i32_small nev) by lia.
+    unfold Ans.u32. rewrite P32, P64.
+    rewrite (Z.mod_small nev 18446744073709551616) by lia.
+    rewrite (Z.mod_small (nev * (nev - 1))) by nia.
+    rewrite (Z.mod_small nev 4294967296) by lia.
+    rewrite (Z.mod_small (nf' * 3)) by lia. rewrite (Z.mod_small (3 * nf')) by lia.
+    assert (ns / 3 <= ns) by (Z.div_mod_to_equations; lia).
+    rewrite (Z.mod_small (ns + ns / 3)) by lia.
+    rewrite (Z.mod_small (nev + nsp)) by lia.
+    rewrite (trav_to_i32_small (nev + nsp)) by lia.
+    repeat (apply andb_true_intro; split); apply negb_true_iff;
+      first [apply Z.ltb_ge; lia | rewrite Z.gtb_ltb; apply Z.ltb_ge; lia].
+  - eapply Forall_impl; [|exact C9]. intros [[src spl] ed]. lia.
+  - exact C8.
 Qed.
